@@ -80,21 +80,1502 @@ Qed.
 Lemma flush_bout s : bout (fst (flush s)) = [].
 Proof. unfold flush. destruct (bout s) eqn:E; [exact E|reflexivity]. Qed.
 
-Lemma log_nonrecv_inv s c : Inv s -> (forall p r, c <> CRecv p r) -> Inv (log_call s c).
+Lemma log_close_inv s c : Inv s -> c = CClose \/ c = CCloseForce -> Inv (log_call s c).
 Proof.
   intros I Hc. constructor; cbn.
-  - intros H. rewrite sent_of_app. destruct c as [d t|p r| |]; cbn.
-    + (* a CSend is never logged through log_call *) exfalso.
-      (* not used: log_call is applied to CRecv, CClose and CCloseForce only *)
-      admit_free_placeholder.
-    + exfalso. now apply (Hc p r).
-    + rewrite app_nil_r. apply (I_out s I H).
-    + rewrite app_nil_r. apply (I_out s I H).
-  - intros H. rewrite rcvd_of_app. destruct c as [d t|p r| |]; cbn; rewrite ?app_nil_r; try apply (I_in s I H).
-    exfalso. now apply (Hc p r).
+  - intros H. rewrite sent_of_app. destruct Hc as [-> | ->]; cbn; rewrite app_nil_r; apply (I_out s I H).
+  - intros H. rewrite rcvd_of_app. destruct Hc as [-> | ->]; cbn; rewrite app_nil_r; apply (I_in s I H).
   - apply (I_bin s I).
-  - rewrite forallb_app. cbn. rewrite (I_flush s I). destruct c as [d t|p r| |]; try reflexivity.
-    exfalso. now apply (Hc p r).
+  - rewrite forallb_app. cbn. rewrite (I_flush s I). destruct Hc as [-> | ->]; reflexivity.
   - intros H. apply eof_seen_snoc in H. destruct H as [H|[p H]]; [apply (I_eof s I H)|].
-    exfalso. now apply (Hc p RxEof).
+    destruct Hc as [-> | ->]; discriminate.
 Qed.
+
+Lemma set_bin_eof_inv s : Inv s -> Inv (set_bin_eof s).
+Proof. intros I. constructor; cbn; try apply I. reflexivity. Qed.
+
+Lemma both_eof_inv s : Inv s -> Inv (both_eof s).
+Proof. intros I. constructor; cbn; try apply I. reflexivity. Qed.
+
+Lemma take_bin_inv s : Inv s -> Inv (take_bin s).
+Proof.
+  intros I. constructor; cbn; try apply I. rewrite app_nil_r. apply (I_bin s I).
+Qed.
+
+Lemma pop_rx_inv s r s2 : pop_rx s = Some (r, s2) -> Inv s -> Inv s2 /\ bout s2 = bout s.
+Proof.
+  unfold pop_rx. intros H I. destruct (rxs s) as [|x rest].
+  - destruct (rx_tail s); [|discriminate]. injection H as <- <-. auto.
+  - injection H as <- <-. split; [|reflexivity]. constructor; cbn; apply I.
+Qed.
+
+(* logging the receive itself: needs the outgoing BIO to be empty *)
+Lemma log_recv_inv s r : Inv s -> bout s = [] -> r <> RxEof -> (forall d, r <> RxData d) ->
+  Inv (log_call s (CRecv (length (bout s)) r)).
+Proof.
+  intros I Hb Hr Hd. rewrite Hb. constructor; cbn.
+  - intros H. rewrite sent_of_app. cbn. rewrite app_nil_r. apply (I_out s I H).
+  - intros H. rewrite rcvd_of_app. destruct r; cbn; rewrite ?app_nil_r; try apply (I_in s I H).
+    exfalso. now apply (Hd d).
+  - apply (I_bin s I).
+  - rewrite forallb_app. cbn. now rewrite (I_flush s I).
+  - intros H. apply eof_seen_snoc in H. destruct H as [H|[p H]]; [apply (I_eof s I H)|].
+    injection H as _ H. destruct (Hr H).
+Qed.
+
+Lemma do_recv_inv s : Inv s -> bout s = [] -> Inv (fst (do_recv s)).
+Proof.
+  intros I Hb. unfold do_recv. destruct (pop_rx s) as [[r s2]|] eqn:E; [|exact I].
+  destruct (pop_rx_inv s r s2 E I) as [I2 Hb2]. rewrite Hb in Hb2.
+  destruct r as [d| | | |].
+  - (* data *)
+    assert (Hcommon : forall s3, s3 = log_call s2 (CRecv (length (bout s2)) (RxData d)) ->
+              (sendfail s3 = false -> produced s3 = sent_of (trace s3) ++ bout s3) /\
+              forallb recv_flushed (trace s3) = true /\
+              (eof_seen (trace s3) -> bin_eof s3 = true) /\
+              fed s3 = consumed s3 ++ bin s3 /\
+              (late s3 = false -> rcvd_of (trace s3) = fed s3 ++ d)).
+    { intros s3 ->. rewrite Hb2. cbn. refine (conj _ (conj _ (conj _ (conj _ _)))).
+      - intros H. rewrite sent_of_app. cbn. rewrite app_nil_r. apply (I_out s2 I2 H).
+      - rewrite forallb_app. cbn. now rewrite (I_flush s2 I2).
+      - intros H. apply eof_seen_snoc in H. destruct H as [H|[p H]]; [apply (I_eof s2 I2 H)|discriminate].
+      - apply (I_bin s2 I2).
+      - intros H. rewrite rcvd_of_app. cbn. rewrite app_nil_r. now rewrite (I_in s2 I2 H). }
+    specialize (Hcommon _ eq_refl). destruct Hcommon as (H1 & H2 & H3 & H4 & H5).
+    cbn [fst]. destruct (bin_eof (log_call s2 _)) eqn:Ee; cbn [fst].
+    + constructor; [exact H1|discriminate|exact H4|exact H2|intros _; exact Ee].
+    + constructor.
+      * exact H1.
+      * exact H5.
+      * cbn in H4 |- *. rewrite H4. now rewrite app_assoc.
+      * exact H2.
+      * intros H. apply H3 in H. discriminate.
+  - (* EndOfStream *)
+    cbn [fst]. constructor; cbn; try reflexivity.
+    + intros H. rewrite sent_of_app. cbn. rewrite app_nil_r. apply (I_out s2 I2 H).
+    + intros H. rewrite rcvd_of_app. cbn. rewrite app_nil_r. apply (I_in s2 I2 H).
+    + apply (I_bin s2 I2).
+    + rewrite forallb_app. cbn. rewrite Hb2. cbn. now rewrite (I_flush s2 I2).
+  - cbn [fst]. apply both_eof_inv. apply log_recv_inv; auto; discriminate.
+  - cbn [fst]. apply log_recv_inv; auto; discriminate.
+  - cbn [fst]. apply log_recv_inv; auto; discriminate.
+Qed.
+
+Lemma on_ev_inv s e : Inv s -> Inv (fst (on_ev s e)).
+Proof.
+  intros I. unfold on_ev. destruct (ek e).
+  - destruct (flush s) as [s2 t] eqn:E. pose proof (flush_inv s I) as I2. rewrite E in I2. cbn in I2.
+    destruct (is_txok t); exact I2.
+  - destruct (flush s) as [s2 t] eqn:E. pose proof (flush_inv s I) as I2. rewrite E in I2. cbn in I2.
+    pose proof (flush_bout s) as Hb. rewrite E in Hb. cbn in Hb.
+    destruct t; cbn [fst]; auto using both_eof_inv, do_recv_inv.
+  - destruct (do_send s) as [s2 t] eqn:E. pose proof (do_send_inv s I) as I2. rewrite E in I2. cbn in I2.
+    destruct (is_txok t); exact I2.
+  - apply both_eof_inv, I.
+  - apply both_eof_inv, I.
+  - apply both_eof_inv, I.
+  - apply both_eof_inv, I.
+  - apply both_eof_inv, I.
+Qed.
+
+Section Generic.
+  Variable O : Type.
+  Variable ocall : O -> func -> list byte -> bool -> option (O * sslev).
+
+  Lemma iter_inv o f s : Inv s -> Inv (fst (snd (iter O ocall o f s))).
+  Proof.
+    intros I. unfold iter. destruct (ocall o f (bin s) (bin_eof s)) as [[o1 e]|]; cbn [fst snd]; [|exact I].
+    apply on_ev_inv, apply_ev_inv, I.
+  Qed.
+
+  Lemma pump_inv fuel : forall o f s, Inv s -> Inv (snd (fst (pump O ocall fuel o f s))).
+  Proof.
+    induction fuel as [|k IH]; intros o f s I; cbn [pump]; [exact I|].
+    pose proof (iter_inv o f s I) as I1.
+    destruct (iter O ocall o f s) as [o1 [s1 [r|]]]; cbn [fst snd] in *; [exact I1|].
+    apply IH, I1.
+  Qed.
+
+  Lemma do_unwrap_inv fuel o s : Inv s -> Inv (snd (fst (do_unwrap O ocall fuel o s))).
+  Proof.
+    intros I. unfold do_unwrap. pose proof (pump_inv fuel o FUnwrap s I) as I1.
+    destruct (pump O ocall fuel o FUnwrap s) as [[o1 s1] r]. cbn [fst snd] in *.
+    destruct r; cbn [fst snd]; auto using take_bin_inv, both_eof_inv.
+  Qed.
+
+  Lemma step_inv fuel w a : Inv (snd w) -> Inv (snd (fst (step O ocall fuel w a))).
+  Proof.
+    destruct w as [o s]. cbn [snd]. intros I. destruct a as [|n|item| |]; cbn [step].
+    - pose proof (pump_inv fuel o FHandshake s I) as I1.
+      destruct (pump O ocall fuel o FHandshake s) as [[o1 s1] r]. destruct r; exact I1.
+    - destruct n as [|n]; [exact I|].
+      pose proof (pump_inv fuel o (FRead (S n)) s I) as I1.
+      destruct (pump O ocall fuel o (FRead (S n)) s) as [[o1 s1] r]. destruct r as [[|x v]| | | | | | | |]; exact I1.
+    - pose proof (pump_inv fuel o (FWrite item) s I) as I1.
+      destruct (pump O ocall fuel o (FWrite item) s) as [[o1 s1] r]. destruct r; exact I1.
+    - pose proof (do_unwrap_inv fuel o s I) as I1.
+      destruct (do_unwrap O ocall fuel o s) as [[o1 s1] r]. exact I1.
+    - destruct (std s).
+      + pose proof (do_unwrap_inv fuel o s I) as I1.
+        destruct (do_unwrap O ocall fuel o s) as [[o1 s1] r]. cbn [fst snd] in I1.
+        destruct r; cbn [fst snd]; apply log_close_inv; auto.
+      + cbn [fst snd]. apply log_close_inv; auto.
+  Qed.
+
+  Lemma run_inv fuel ops : forall w, Inv (snd w) -> Inv (snd (fst (run O ocall fuel w ops))).
+  Proof.
+    unfold run. intros w I. rewrite run_ops_final.
+    apply (final_inv (step O ocall fuel) (fun w => Inv (snd w))); [|exact I].
+    intros w0 a. apply step_inv.
+  Qed.
+End Generic.
+
+(* ------------------------------------------------------------------------------------------------ *)
+(* Part 1b: how the loop maps the SSL object's last answer to the caller's outcome                   *)
+(* ------------------------------------------------------------------------------------------------ *)
+
+Definition tx_fail (r : res) : Prop := r = ROSError \/ r = RBroken \/ r = RClosed.
+
+(* outcome r of the loop, given the last answer e of the SSL object (sc = standard_compatible) *)
+Definition res_of_ev (sc : bool) (e : sslev) (r : res) (s' : pst) : Prop :=
+  match ek e with
+  | KOk => r = RVal (eval e) \/ (sendfail s' = true /\ tx_fail r)
+  | KWantRead => r = RBroken \/ r = RClosed \/ (r = RSslOther /\ late s' = true)
+  | KWantWrite => sendfail s' = true /\ tx_fail r
+  | KSyscall => r = RBroken
+  | KEofCls | KEofStr => r = if sc then RBroken else REndOfStream
+  | KOther => r = RSslOther
+  | KZeroRet => r = RSslZeroRet
+  end.
+
+Lemma do_send_frame s : std (fst (do_send s)) = std s /\ olog (fst (do_send s)) = olog s.
+Proof. split; reflexivity. Qed.
+
+Lemma flush_frame s : std (fst (flush s)) = std s /\ olog (fst (flush s)) = olog s.
+Proof. unfold flush. destruct (bout s); split; reflexivity. Qed.
+
+Lemma do_recv_frame s : std (fst (do_recv s)) = std s /\ olog (fst (do_recv s)) = olog s.
+Proof.
+  unfold do_recv, pop_rx. destruct (rxs s) as [|r rest].
+  - destruct (rx_tail s) as [r|]; [|split; reflexivity].
+    destruct r; cbn; try (split; reflexivity). destruct (bin_eof s); split; reflexivity.
+  - destruct r; cbn; try (split; reflexivity). destruct (bin_eof s); split; reflexivity.
+Qed.
+
+Lemma on_ev_frame s e : std (fst (on_ev s e)) = std s /\ olog (fst (on_ev s e)) = olog s.
+Proof.
+  unfold on_ev. destruct (ek e); try (split; reflexivity).
+  - pose proof (flush_frame s) as H. destruct (flush s) as [s2 t]. destruct (is_txok t); exact H.
+  - pose proof (flush_frame s) as H. destruct (flush s) as [s2 t]. cbn [fst] in H. destruct H as [H1 H2].
+    destruct t; cbn [fst]; try (split; assumption).
+    destruct (do_recv_frame s2) as [H3 H4]. split; congruence.
+  - pose proof (do_send_frame s) as H. destruct (do_send s) as [s2 t]. destruct (is_txok t); exact H.
+Qed.
+
+Lemma do_send_fail s s2 t : do_send s = (s2, t) -> is_txok t = false -> sendfail s2 = true /\ tx_fail (tx_fail_res t).
+Proof.
+  unfold do_send. intros H Ht. injection H as <- <-. cbn [sendfail].
+  destruct (txs s) as [|t r]; cbn in *; [discriminate|].
+  split; [destruct t; try discriminate; apply orb_true_r|].
+  destruct t; try discriminate; unfold tx_fail; cbn; auto.
+Qed.
+
+Lemma flush_fail s s2 t : flush s = (s2, t) -> is_txok t = false -> sendfail s2 = true /\ tx_fail (tx_fail_res t).
+Proof.
+  unfold flush. destruct (bout s).
+  - intros H. injection H as <- <-. discriminate.
+  - apply do_send_fail.
+Qed.
+
+Lemma on_ev_done s e s2 r : on_ev s e = (s2, Done r) -> r <> RStuck -> res_of_ev (std s) e r s2.
+Proof.
+  unfold on_ev, res_of_ev. destruct (ek e).
+  - destruct (flush s) as [s1 t] eqn:E. destruct (is_txok t) eqn:Et; intros H Hr; injection H as <- <-.
+    + now left.
+    + right. apply (flush_fail s s1 t E Et).
+  - destruct (flush s) as [s1 t] eqn:E. destruct t.
+    + unfold do_recv. destruct (pop_rx s1) as [[x s3]|]; [|intros H Hr; injection H as <- <-; contradiction].
+      destruct x; try (intros H Hr; injection H as <- <-; auto; fail).
+      * destruct (bin_eof _); intros H Hr; [|discriminate]. injection H as <- <-. right. right. split; reflexivity.
+      * discriminate.
+    + intros H Hr; injection H as <- <-; auto.
+    + intros H Hr; injection H as <- <-; auto.
+    + intros H Hr; injection H as <- <-; auto.
+  - destruct (do_send s) as [s1 t] eqn:E. destruct (is_txok t) eqn:Et; intros H Hr; [discriminate|].
+    injection H as <- <-. apply (do_send_fail s s1 t E Et).
+  - intros H _. now injection H as <- <-.
+  - intros H _. now injection H as <- <-.
+  - intros H _. now injection H as <- <-.
+  - intros H _. now injection H as <- <-.
+  - intros H _. now injection H as <- <-.
+Qed.
+
+Section Generic2.
+  Variable O : Type.
+  Variable ocall : O -> func -> list byte -> bool -> option (O * sslev).
+
+  (* e is an answer the SSL object really gave to a call of method f *)
+  Definition answered (f : func) (e : sslev) : Prop :=
+    exists o0 b be o1, ocall o0 f b be = Some (o1, e).
+
+  Lemma pump_spec fuel : forall o f s o' s' r,
+    pump O ocall fuel o f s = (o', s', r) -> r <> RStuck ->
+    std s' = std s /\
+    exists pre e, olog s' = pre ++ [(f, e)] /\ answered f e /\ res_of_ev (std s) e r s'.
+  Proof.
+    induction fuel as [|k IH]; intros o f s o' s' r; cbn [pump].
+    - intros H Hr. injection H as _ _ <-. contradiction.
+    - unfold iter. destruct (ocall o f (bin s) (bin_eof s)) as [[o1 e]|] eqn:Ec.
+      + destruct (on_ev (apply_ev s f e) e) as [s1 nx] eqn:Ev.
+        pose proof (on_ev_frame (apply_ev s f e) e) as [F1 F2]. rewrite Ev in F1, F2. cbn in F1, F2.
+        destruct nx as [r0|].
+        * intros H Hr. injection H as <- <- <-. split; [exact F1|].
+          exists (olog s), e. split; [exact F2|]. split; [now exists o, (bin s), (bin_eof s), o1|].
+          apply (on_ev_done _ _ _ _ Ev Hr).
+        * intros H Hr. destruct (IH _ _ _ _ _ _ H Hr) as (Hs & pre & e' & Hl & Ha & Hres).
+          split; [congruence|]. exists pre, e'. rewrite F1 in Hres. auto.
+      + intros H Hr. injection H as _ _ <-. contradiction.
+  Qed.
+
+  Lemma pump_std fuel : forall o f s, std (snd (fst (pump O ocall fuel o f s))) = std s.
+  Proof.
+    induction fuel as [|k IH]; intros o f s; cbn [pump]; [reflexivity|].
+    unfold iter. destruct (ocall o f (bin s) (bin_eof s)) as [[o1 e]|]; [|reflexivity].
+    pose proof (on_ev_frame (apply_ev s f e) e) as [F1 _].
+    destruct (on_ev (apply_ev s f e) e) as [s1 [r0|]]; cbn in *; [exact F1|]. now rewrite IH.
+  Qed.
+
+  (* a successful loop leaves nothing unsent *)
+  Lemma on_ev_val_flushed s e s2 v : on_ev s e = (s2, Done (RVal v)) -> bout s2 = [].
+  Proof.
+    unfold on_ev. destruct (ek e); try discriminate.
+    - pose proof (flush_bout s) as Hb. destruct (flush s) as [s1 t]. cbn in Hb.
+      destruct (is_txok t); intros H; inversion H; subst; exact Hb.
+    - destruct (flush s) as [s1 t]. destruct t; try discriminate.
+      unfold do_recv. destruct (pop_rx s1) as [[x s3]|]; [|discriminate].
+      destruct x; try discriminate. destruct (bin_eof _); discriminate.
+    - destruct (do_send s) as [s1 t]. destruct t; cbn; discriminate.
+    - destruct (std s); discriminate.
+    - destruct (std s); discriminate.
+  Qed.
+
+  Lemma pump_val_flushed fuel : forall o f s o' s' v,
+    pump O ocall fuel o f s = (o', s', RVal v) -> bout s' = [].
+  Proof.
+    induction fuel as [|k IH]; intros o f s o' s' v; cbn [pump]; [discriminate|].
+    unfold iter. destruct (ocall o f (bin s) (bin_eof s)) as [[o1 e]|]; [|discriminate].
+    destruct (on_ev (apply_ev s f e) e) as [s1 [r0|]] eqn:Ev.
+    - intros H. injection H as <- <- ->. apply (on_ev_val_flushed _ _ _ _ Ev).
+    - apply IH.
+  Qed.
+End Generic2.
+
+(* ------------------------------------------------------------------------------------------------ *)
+(* Part 1c: the pump theorems (for every oracle, transport script, operation sequence)               *)
+(* ------------------------------------------------------------------------------------------------ *)
+Section PumpTheorems.
+  Variable O : Type.
+  Variable ocall : O -> func -> list byte -> bool -> option (O * sslev).
+
+  Theorem pump_ciphertext_conserved fuel o0 sc rx tail tx ops :
+    let s := snd (fst (run O ocall fuel (o0, init_pst sc rx tail tx) ops)) in
+    (sendfail s = false -> produced s = sent_of (trace s) ++ bout s) /\
+    (late s = false -> rcvd_of (trace s) = fed s) /\
+    fed s = consumed s ++ bin s.
+  Proof.
+    cbn zeta. pose proof (run_inv O ocall fuel ops (o0, init_pst sc rx tail tx) (inv_init sc rx tail tx)) as I.
+    exact (conj (I_out _ I) (conj (I_in _ I) (I_bin _ I))).
+  Qed.
+
+  Theorem pump_ok_leaves_nothing_unsent fuel o f s o' s' v :
+    pump O ocall fuel o f s = (o', s', RVal v) -> bout s' = [].
+  Proof. apply pump_val_flushed. Qed.
+
+  Theorem pump_flushes_before_wait fuel o0 sc rx tail tx ops :
+    let s := snd (fst (run O ocall fuel (o0, init_pst sc rx tail tx) ops)) in
+    forall p r, In (CRecv p r) (trace s) -> p = 0.
+  Proof.
+    cbn zeta. pose proof (run_inv O ocall fuel ops (o0, init_pst sc rx tail tx) (inv_init sc rx tail tx)) as I.
+    intros p r H. pose proof (I_flush _ I) as Hf. rewrite forallb_forall in Hf. specialize (Hf _ H).
+    destruct p; [reflexivity|discriminate].
+  Qed.
+
+  Theorem pump_transport_eof_reaches_bio fuel o0 sc rx tail tx ops :
+    let s := snd (fst (run O ocall fuel (o0, init_pst sc rx tail tx) ops)) in
+    forall p, In (CRecv p RxEof) (trace s) -> bin_eof s = true.
+  Proof.
+    cbn zeta. pose proof (run_inv O ocall fuel ops (o0, init_pst sc rx tail tx) (inv_init sc rx tail tx)) as I.
+    intros p H. apply (I_eof _ I). now exists p.
+  Qed.
+
+  Definition unexpected_eof (e : sslev) : Prop := ek e = KEofCls \/ ek e = KEofStr.
+
+  Theorem pump_eof_mapping fuel o s n o' s' r :
+    step O ocall fuel (o, s) (OReceive n) = ((o', s'), r) -> r <> RStuck -> r <> RValueError ->
+    exists pre e, olog s' = pre ++ [(FRead n, e)] /\ answered O ocall (FRead n) e /\
+      (unexpected_eof e -> r = if std s then RBroken else REndOfStream) /\
+      (r = REndOfStream -> (ek e = KOk /\ eval e = []) \/ (std s = false /\ unexpected_eof e)) /\
+      (std s = true -> r = REndOfStream -> ek e = KOk /\ eval e = []) /\
+      (forall v, r = RVal v -> ek e = KOk /\ eval e = v /\ v <> []).
+  Proof.
+    cbn [step]. destruct n as [|n]; [intros H _ Hv; injection H as _ _ <-; contradiction|].
+    destruct (pump O ocall fuel o (FRead (S n)) s) as [[o1 s1] r1] eqn:Ep.
+    intros H Hr Hv.
+    assert (Hr1 : r1 <> RStuck).
+    { intros ->. injection H as _ _ <-. contradiction. }
+    destruct (pump_spec O ocall fuel _ _ _ _ _ _ Ep Hr1) as (Hstd & pre & e & Hl & Ha & Hres).
+    assert (Hs' : s' = s1) by (destruct r1 as [[|x v]| | | | | | | |]; inversion H; reflexivity).
+    subst s'. exists pre, e. split; [exact Hl|]. split; [exact Ha|].
+    unfold res_of_ev, unexpected_eof, tx_fail in *.
+    destruct (ek e) eqn:Ek.
+    - (* KOk *)
+      destruct Hres as [-> | [Hsf Hf]].
+      + destruct (eval e) as [|x v] eqn:Ee; injection H as _ <-.
+        * refine (conj _ (conj _ (conj _ _))); try (intros [?|?]; discriminate); auto; discriminate.
+        * refine (conj _ (conj _ (conj _ _))); try (intros [?|?]; discriminate); try discriminate.
+          intros v0 Hv0. injection Hv0 as <-. repeat split; auto. discriminate.
+      + destruct Hf as [-> | [-> | ->]]; injection H as _ <-;
+          (refine (conj _ (conj _ (conj _ _))); try (intros [?|?]; discriminate); try discriminate).
+    - destruct Hres as [-> | [-> | [-> _]]]; injection H as _ <-;
+        (refine (conj _ (conj _ (conj _ _))); try (intros [?|?]; discriminate); try discriminate).
+    - destruct Hres as [_ [-> | [-> | ->]]]; injection H as _ <-;
+        (refine (conj _ (conj _ (conj _ _))); try (intros [?|?]; discriminate); try discriminate).
+    - subst r1. injection H as _ <-.
+      refine (conj _ (conj _ (conj _ _))); try (intros [?|?]; discriminate); try discriminate.
+    - subst r1. destruct (std s) eqn:Es; injection H as _ <-;
+        (refine (conj _ (conj _ (conj _ _))); try discriminate; auto).
+    - subst r1. destruct (std s) eqn:Es; injection H as _ <-;
+        (refine (conj _ (conj _ (conj _ _))); try discriminate; auto).
+    - subst r1. injection H as _ <-.
+      refine (conj _ (conj _ (conj _ _))); try (intros [?|?]; discriminate); try discriminate.
+    - subst r1. injection H as _ <-.
+      refine (conj _ (conj _ (conj _ _))); try (intros [?|?]; discriminate); try discriminate.
+  Qed.
+
+  Theorem pump_receive_le_max_bytes :
+    (forall o n b be o1 e, ocall o (FRead n) b be = Some (o1, e) -> ek e = KOk -> length (eval e) <= n) ->
+    forall fuel o s n o' s' v,
+      step O ocall fuel (o, s) (OReceive n) = ((o', s'), RVal v) -> 1 <= length v <= n.
+  Proof.
+    intros Hle fuel o s n o' s' v H.
+    destruct (pump_eof_mapping fuel o s n o' s' (RVal v) H) as (pre & e & _ & Ha & _ & _ & _ & Hv); try discriminate.
+    destruct (Hv v eq_refl) as (Hk & He & Hne).
+    destruct Ha as (o0 & b & be & o1 & Hc). specialize (Hle _ _ _ _ _ _ Hc Hk). rewrite He in Hle.
+    destruct v; [contradiction|cbn in *; lia].
+  Qed.
+End PumpTheorems.
+
+(* ------------------------------------------------------------------------------------------------ *)
+(* Part 2: the toy record layer                                                                      *)
+(* ------------------------------------------------------------------------------------------------ *)
+
+Lemma map_pred_S l : map pred (map S l) = l.
+Proof. induction l as [|x l IH]; cbn; [reflexivity|now rewrite IH]. Qed.
+
+Lemma frag_aux_concat m : forall fuel l, length l <= fuel -> concat (frag_aux fuel m l) = l.
+Proof.
+  induction fuel as [|k IH]; intros l Hl.
+  - destruct l; [reflexivity|cbn in Hl; lia].
+  - destruct l as [|x l]; [reflexivity|]. cbn [frag_aux concat].
+    rewrite IH.
+    + apply firstn_skipn.
+    + cbn [skipn]. pose proof (skipn_length m l). cbn in Hl. lia.
+Qed.
+
+Lemma frag_concat m l : concat (frag m l) = l.
+Proof. apply frag_aux_concat. lia. Qed.
+
+Lemma frag_aux_nonempty m : forall fuel l c, In c (frag_aux fuel m l) -> c <> [] /\ length c <= S m.
+Proof.
+  induction fuel as [|k IH]; intros l c H; [destruct H|].
+  destruct l as [|x l]; [destruct H|]. cbn [frag_aux] in H. destruct H as [<-|H].
+  - split; [discriminate|]. apply firstn_le_length.
+  - apply (IH _ _ H).
+Qed.
+
+Lemma frag_nonempty m l : Forall (fun c => c <> []) (frag m l).
+Proof. apply Forall_forall. intros c H. apply (frag_aux_nonempty m _ _ _ H). Qed.
+
+Lemma frag_bounded m l : Forall (fun c => length c <= S m) (frag m l).
+Proof. apply Forall_forall. intros c H. apply (frag_aux_nonempty m _ _ _ H). Qed.
+
+(* H_ssl, clause "read(n) returns at most n bytes" *)
+Lemma toy_read_le o n b be o1 e :
+  toy_call o (FRead n) b be = Some (o1, e) -> ek e = KOk -> length (eval e) <= n.
+Proof.
+  unfold toy_call. destruct (dead o); [intros H; injection H as _ <-; discriminate|].
+  destruct (negb (hs_done o)); [intros H; injection H as _ <-; discriminate|].
+  destruct (pbuf o) as [|x pb].
+  - destruct (peer_closed o).
+    + destruct (self_closed o); intros H; injection H as _ <-; cbn; intros; try discriminate; lia.
+    + destruct (parse (ibuf o ++ b)) as [[[t p] rest]|].
+      * destruct t as [|[|[|t]]]; try (intros H; injection H as _ <-; discriminate).
+        -- destruct p; intros H; injection H as _ <-; try discriminate. intros _. apply firstn_le_length.
+        -- destruct p; intros H; injection H as _ <-; try discriminate. cbn. lia.
+      * destruct be; intros H; injection H as _ <-; discriminate.
+  - intros H; injection H as _ <-. intros _. apply firstn_le_length.
+Qed.
+
+(* the receive bound for the toy layer follows from the generic theorem *)
+Corollary toy_receive_le_max_bytes fuel o s n o' s' v :
+  tstep fuel (o, s) (OReceive n) = ((o', s'), RVal v) -> 1 <= length v <= n.
+Proof. apply (pump_receive_le_max_bytes tobj toy_call toy_read_le). Qed.
+
+(* ---- parsing a prefix of a record stream ---- *)
+Definition prefix (a b : list byte) : Prop := exists t, b = a ++ t.
+
+Lemma parse_complete t p rest : parse (t :: length p :: p ++ rest) = Some (t, p, rest).
+Proof.
+  unfold parse. rewrite app_length.
+  destruct (Nat.leb_spec (length p) (length p + length rest)); [|lia].
+  rewrite firstn_app, Nat.sub_diag, firstn_all. cbn [firstn]. rewrite app_nil_r.
+  rewrite skipn_app, Nat.sub_diag, skipn_all. reflexivity.
+Qed.
+
+Lemma parse_incomplete t p more ib :
+  prefix ib (t :: length p :: p ++ more) -> length ib < 2 + length p -> parse ib = None.
+Proof.
+  intros [tl H] Hl. destruct ib as [|a [|n r]]; try reflexivity.
+  cbn in H. injection H as <- <- H. unfold parse.
+  destruct (Nat.leb_spec (length p) (length r)); [|reflexivity]. cbn in Hl. lia.
+Qed.
+
+Lemma prefix_split ib rc more :
+  prefix ib (rc ++ more) -> length rc <= length ib -> exists rest, ib = rc ++ rest /\ prefix rest more.
+Proof.
+  intros [tl H] Hl. exists (skipn (length rc) ib).
+  assert (E : firstn (length rc) ib = rc).
+  { apply (f_equal (firstn (length rc))) in H. rewrite firstn_app, Nat.sub_diag, firstn_all in H.
+    cbn in H. rewrite app_nil_r in H. rewrite firstn_app in H.
+    replace (length rc - length ib) with 0 in H by lia. cbn in H. rewrite app_nil_r in H. now symmetry. }
+  split.
+  - rewrite <- E at 1. now rewrite firstn_skipn.
+  - exists tl. apply (f_equal (skipn (length rc))) in H.
+    rewrite skipn_app, Nat.sub_diag, skipn_all in H. cbn in H.
+    rewrite skipn_app in H. replace (length rc - length ib) with 0 in H by lia. cbn in H. exact H.
+Qed.
+
+(* ---- the endpoint whose transport delivers a byte stream in arbitrary chunks and then ends ---- *)
+Definition is_data (r : rxev) : bool := match r with RxData _ => true | _ => false end.
+
+Fixpoint rx_bytes (l : list rxev) : list byte :=
+  match l with
+  | [] => []
+  | RxData d :: r => d ++ rx_bytes r
+  | _ :: r => rx_bytes r
+  end.
+
+Record S1 (s : pst) : Prop := {
+  S_bout : bout s = [];
+  S_txs : txs s = [];
+  S_tail : rx_tail s = Some RxEof;
+  S_data : forallb is_data (rxs s) = true;
+  S_eof : bin_eof s = true -> rxs s = []
+}.
+
+Definition same (s s2 : pst) : Prop := std s2 = std s /\ produced s2 = produced s.
+
+Lemma same_refl s : same s s.
+Proof. split; reflexivity. Qed.
+
+Lemma same_trans a b c : same a b -> same b c -> same a c.
+Proof. intros [H1 H2] [H3 H4]. split; congruence. Qed.
+
+Definition tob (m : nat) (hsd : bool) (ib : list byte) : tobj := mkt m true hsd ib [] false false false.
+Definition wr (c : nat) : sslev := mkev KWantRead [] c [].
+
+Lemma wantread_data s f c d rest :
+  S1 s -> rxs s = RxData d :: rest ->
+  exists s', on_ev (apply_ev s f (wr c)) (wr c) = (s', Again) /\ S1 s' /\ same s s' /\
+             bin s' = skipn c (bin s) ++ d /\ rxs s' = rest.
+Proof.
+  intros H Hrx. destruct H as [Hb Ht Htl Hd He].
+  assert (Hne : bin_eof s = false).
+  { destruct (bin_eof s); [|reflexivity]. rewrite He in Hrx by reflexivity. discriminate. }
+  unfold on_ev, wr. cbn [ek]. unfold flush, apply_ev. cbn [bout eemit]. rewrite Hb. cbn [app].
+  unfold do_recv, pop_rx. cbn [rxs]. rewrite Hrx. cbn. rewrite Hne.
+  eexists. split; [reflexivity|]. rewrite Hrx in Hd. cbn in Hd.
+  split; [constructor; cbn; auto; discriminate|]. split; [split; cbn; auto using app_nil_r|]. split; reflexivity.
+Qed.
+
+Lemma wantread_eof s f c :
+  S1 s -> rxs s = [] ->
+  exists s', on_ev (apply_ev s f (wr c)) (wr c) = (s', Again) /\ S1 s' /\ same s s' /\
+             bin s' = skipn c (bin s) /\ rxs s' = [] /\ bin_eof s' = true.
+Proof.
+  intros H Hrx. destruct H as [Hb Ht Htl Hd He].
+  unfold on_ev, wr. cbn [ek]. unfold flush, apply_ev. cbn [bout eemit]. rewrite Hb. cbn [app].
+  unfold do_recv, pop_rx. cbn [rxs rx_tail]. rewrite Hrx, Htl. cbn.
+  eexists. split; [reflexivity|].
+  split; [constructor; cbn; auto|]. split; [split; cbn; auto using app_nil_r|]. repeat split; auto.
+Qed.
+
+Lemma pump_S fuel o f s :
+  pump tobj toy_call (S fuel) o f s =
+  match toy_call o f (bin s) (bin_eof s) with
+  | None => (o, s, RStuck)
+  | Some (o1, e) =>
+      match on_ev (apply_ev s f e) e with
+      | (s1, Done r) => (o1, s1, r)
+      | (s1, Again) => pump tobj toy_call fuel o1 f s1
+      end
+  end.
+Proof.
+  cbn [pump]. unfold iter. destruct (toy_call o f (bin s) (bin_eof s)) as [[o1 e]|]; [|reflexivity].
+  destruct (on_ev (apply_ev s f e) e) as [s1 [r|]]; reflexivity.
+Qed.
+
+(* the method that waits for the next record: do_handshake before the handshake is complete, read() after *)
+Definition waits (hsd : bool) (f : func) : Prop :=
+  (hsd = false /\ f = FHandshake) \/ (hsd = true /\ exists n, f = FRead n).
+
+Lemma toy_incomplete m hsd f ib b be :
+  waits hsd f -> parse (ib ++ b) = None ->
+  toy_call (tob m hsd ib) f b be =
+    if be then Some (kill (tob m hsd ib), mkev (if hsd then KEofStr else KEofCls) [] 0 [])
+    else Some (tob m hsd (ib ++ b), wr (length b)).
+Proof.
+  intros [[-> ->]|[-> [n ->]]] Hp; unfold toy_call, tob; cbn; rewrite Hp; destruct be; reflexivity.
+Qed.
+
+(* feeding loop: the pump keeps receiving chunks until the next record is complete or the transport ends *)
+Lemma fill_loop m hsd f t p more : waits hsd f ->
+  forall rx ib s fuel,
+    S1 s -> rxs s = rx -> prefix (ib ++ bin s ++ rx_bytes rx) (t :: length p :: p ++ more) ->
+    length rx + 2 <= fuel ->
+    exists ib2 s2 fuel2,
+      pump tobj toy_call fuel (tob m hsd ib) f s = pump tobj toy_call (S fuel2) (tob m hsd ib2) f s2 /\
+      S1 s2 /\ same s s2 /\
+      ib2 ++ bin s2 ++ rx_bytes (rxs s2) = ib ++ bin s ++ rx_bytes rx /\
+      length (rxs s2) <= length rx /\
+      (2 + length p <= length (ib2 ++ bin s2) \/
+       (length (ib2 ++ bin s2) < 2 + length p /\ bin_eof s2 = true /\ rxs s2 = [])).
+Proof.
+  intros Hw. induction rx as [|r rest IH]; intros ib s fuel H1 Hrx Hpre Hfuel.
+  - (* no more chunks *)
+    destruct (le_lt_dec (2 + length p) (length (ib ++ bin s))) as [Hc|Hc].
+    + destruct fuel as [|k]; [lia|]. exists ib, s, k. rewrite Hrx.
+      exact (conj eq_refl (conj H1 (conj (same_refl s) (conj eq_refl (conj (le_n _) (or_introl Hc)))))).
+    + destruct (bin_eof s) eqn:Ee.
+      * destruct fuel as [|k]; [lia|]. exists ib, s, k. rewrite Hrx.
+        exact (conj eq_refl (conj H1 (conj (same_refl s) (conj eq_refl (conj (le_n _) (or_intror (conj Hc (conj Ee eq_refl)))))))).
+      * destruct fuel as [|[|k]]; try lia.
+        assert (Hp : parse (ib ++ bin s) = None).
+        { apply (parse_incomplete t p more); [|exact Hc].
+          cbn [rx_bytes] in Hpre. rewrite app_nil_r in Hpre. exact Hpre. }
+        rewrite pump_S, (toy_incomplete m hsd f ib (bin s) (bin_eof s) Hw Hp), Ee.
+        destruct (wantread_eof s f (length (bin s)) H1 Hrx) as (s' & Hev & H1' & Hs & Hb & Hr & He').
+        rewrite Hev. exists (ib ++ bin s), s', k.
+        rewrite skipn_all in Hb. rewrite Hb, Hr. cbn [rx_bytes]. rewrite !app_nil_r.
+        exact (conj eq_refl (conj H1' (conj Hs (conj eq_refl (conj (le_n _) (or_intror (conj Hc (conj He' eq_refl)))))))).
+  - destruct (le_lt_dec (2 + length p) (length (ib ++ bin s))) as [Hc|Hc].
+    + destruct fuel as [|k]; [lia|]. exists ib, s, k. rewrite Hrx.
+      exact (conj eq_refl (conj H1 (conj (same_refl s) (conj eq_refl (conj (le_n _) (or_introl Hc)))))).
+    + assert (Hd := S_data s H1). rewrite Hrx in Hd. cbn in Hd. apply andb_prop in Hd. destruct Hd as [Hd _].
+      destruct r as [d| | | |]; try discriminate.
+      assert (Ee : bin_eof s = false).
+      { destruct (bin_eof s) eqn:E; [|reflexivity]. rewrite (S_eof s H1 E) in Hrx. discriminate. }
+      destruct fuel as [|k]; [cbn in Hfuel; lia|].
+      assert (Hp : parse (ib ++ bin s) = None).
+      { apply (parse_incomplete t p (more)); [|exact Hc].
+        destruct Hpre as [tl Hpre]. exists (rx_bytes (RxData d :: rest) ++ tl).
+        rewrite Hpre. now rewrite <- !app_assoc. }
+      rewrite pump_S, (toy_incomplete m hsd f ib (bin s) (bin_eof s) Hw Hp), Ee.
+      destruct (wantread_data s f (length (bin s)) d rest H1 Hrx) as (s' & Hev & H1' & Hs & Hb & Hr).
+      rewrite Hev. rewrite skipn_all in Hb. cbn [app] in Hb.
+      destruct (IH (ib ++ bin s) s' k H1' Hr) as (ib2 & s2 & fuel2 & Hpump & H12 & Hs2 & Hstream & Hlen & Hcase).
+      * rewrite Hb. cbn [rx_bytes] in Hpre. now rewrite <- app_assoc.
+      * cbn in Hfuel. lia.
+      * exists ib2, s2, fuel2. split; [exact Hpump|]. split; [exact H12|].
+        split; [apply (same_trans _ _ _ Hs Hs2)|]. split; [|split; [cbn; lia|exact Hcase]].
+        rewrite Hstream, Hb. cbn [rx_bytes]. now rewrite <- app_assoc.
+Qed.
+
+(* a call that succeeds without producing output *)
+Lemma ok_noemit s f v c : S1 s ->
+  exists s', on_ev (apply_ev s f (mkev KOk v c [])) (mkev KOk v c []) = (s', Done (RVal v)) /\
+             S1 s' /\ same s s' /\ bin s' = skipn c (bin s) /\ rxs s' = rxs s.
+Proof.
+  intros [Hb Ht Htl Hd He]. unfold on_ev. cbn [ek]. unfold flush, apply_ev. cbn [bout eemit]. rewrite Hb. cbn.
+  eexists. split; [reflexivity|].
+  split; [constructor; cbn; auto|]. split; [split; cbn; auto using app_nil_r|]. split; reflexivity.
+Qed.
+
+(* a call that succeeds and produces output: the output is flushed *)
+Lemma ok_emit s f v em : S1 s ->
+  exists s', on_ev (apply_ev s f (mkev KOk v 0 em)) (mkev KOk v 0 em) = (s', Done (RVal v)) /\
+             S1 s' /\ std s' = std s /\ produced s' = produced s ++ em /\
+             bin s' = bin s /\ rxs s' = rxs s.
+Proof.
+  intros [Hb Ht Htl Hd He]. unfold on_ev. cbn [ek]. unfold flush, apply_ev. cbn [bout eemit]. rewrite Hb. cbn [app].
+  destruct em as [|x em].
+  - cbn. eexists. split; [reflexivity|]. split; [constructor; cbn; auto|]. repeat split; auto.
+  - unfold do_send. cbn [txs]. rewrite Ht. cbn.
+    eexists. split; [reflexivity|]. split; [constructor; cbn; auto|]. repeat split; auto.
+Qed.
+
+(* a fatal answer *)
+Lemma fatal_ev s f k r : 
+  on_ev (apply_ev s f (mkev k [] 0 [])) (mkev k [] 0 []) = (both_eof (apply_ev s f (mkev k [] 0 [])), Done r) ->
+  same s (both_eof (apply_ev s f (mkev k [] 0 []))).
+Proof. intros _. split; cbn; auto using app_nil_r. Qed.
+
+Definition alive (m : nat) (ib pb : list byte) (pc : bool) : tobj := mkt m true true ib pb pc false false.
+
+Record J (fuel D : nat) (frs : list (list byte)) (ib pb : list byte) (pc : bool) (s : pst) : Prop := {
+  J_s1 : S1 s;
+  J_fuel : length (rxs s) + 2 <= fuel;
+  J_ne : Forall (fun c => c <> []) frs;
+  J_open : pc = false ->
+           exists tl, concat (map rec1 frs) ++ close_rec = (ib ++ bin s ++ rx_bytes (rxs s)) ++ tl /\ length tl = D;
+  J_closed : pc = true -> frs = [] /\ pb = [] /\ D = 0
+}.
+
+Lemma rec1_shape c more : rec1 c ++ more = 1 :: length (map S c) :: map S c ++ more.
+Proof. unfold rec1. now rewrite map_length. Qed.
+
+Lemma toy_read_closed m ib n b be :
+  toy_call (alive m ib [] true) (FRead n) b be = Some (alive m ib [] true, mkev KOk [] 0 []).
+Proof. reflexivity. Qed.
+
+Lemma toy_read_buffered m ib x pb pc n b be :
+  toy_call (alive m ib (x :: pb) pc) (FRead n) b be =
+  Some (alive m ib (skipn n (x :: pb)) pc, mkev KOk (firstn n (x :: pb)) 0 []).
+Proof. reflexivity. Qed.
+
+Lemma toy_read_close m ib n b be rest : parse (ib ++ b) = Some (2, [], rest) ->
+  toy_call (tob m true ib) (FRead n) b be = Some (alive m rest [] true, mkev KOk [] (length b) []).
+Proof. intros H. unfold toy_call, tob. cbn. now rewrite H. Qed.
+
+Lemma toy_read_data m ib n b be y c rest : parse (ib ++ b) = Some (1, S y :: map S c, rest) ->
+  toy_call (tob m true ib) (FRead n) b be =
+  Some (alive m rest (skipn n (y :: c)) false, mkev KOk (firstn n (y :: c)) (length b) []).
+Proof. intros H. unfold toy_call, tob. cbn. rewrite H. cbn. now rewrite map_pred_S. Qed.
+
+Lemma toy_write_alive m ib pb pc item b be :
+  toy_call (alive m ib pb pc) (FWrite item) b be =
+  Some (alive m ib pb pc, mkev KOk [length item] 0 (records m item)).
+Proof. reflexivity. Qed.
+
+Lemma toy_dead o f b be : dead o = true -> toy_call o f b be = Some (o, mkev KOther [] 0 []).
+Proof. intros H. unfold toy_call. now rewrite H. Qed.
+
+
+Lemma recv_step m fuel D frs ib pb pc s n :
+  J fuel D frs ib pb pc s ->
+  exists o' s' r, tstep fuel (alive m ib pb pc, s) (OReceive (S n)) = ((o', s'), r) /\ same s s' /\
+    ( (exists v frs' ib' pb', r = RVal v /\ v <> [] /\ o' = alive m ib' pb' false /\ J fuel D frs' ib' pb' false s' /\
+                              pb ++ concat frs = v ++ pb' ++ concat frs')
+   \/ (r = REndOfStream /\ D = 0 /\ pb = [] /\ frs = [] /\ exists ib', o' = alive m ib' [] true /\ J fuel 0 [] ib' [] true s')
+   \/ (r = (if std s then RBroken else REndOfStream) /\ 0 < D /\ pb = [] /\ dead o' = true) ).
+Proof.
+  intros HJ. destruct HJ as [H1 Hfuel Hne Hopen Hclosed].
+  destruct fuel as [|k]; [lia|].
+  unfold tstep. cbn [step].
+  destruct pb as [|x pb].
+  - destruct pc.
+    + (* close_notify already seen *)
+      destruct (Hclosed eq_refl) as (-> & _ & ->).
+      rewrite pump_S, toy_read_closed.
+      destruct (ok_noemit s (FRead (S n)) [] 0 H1) as (s' & Hev & H1' & Hs & Hb & Hr). rewrite Hev.
+      exists (alive m ib [] true), s', REndOfStream. split; [reflexivity|]. split; [exact Hs|].
+      right. left. repeat split; auto. exists ib. split; [reflexivity|].
+      constructor; auto; try discriminate. rewrite Hr. exact Hfuel.
+    + (* wait for the next record *)
+      destruct (Hopen eq_refl) as (tl & Hstream & Htl).
+      change (alive m ib [] false) with (tob m true ib).
+      assert (Hw : waits true (FRead (S n))) by (right; split; [reflexivity|now exists (S n)]).
+      assert (Hshape : exists (t : byte) (p more : list byte), concat (map rec1 frs) ++ close_rec = t :: length p :: p ++ more /\
+                 ((frs = [] /\ t = 2 /\ p = [] /\ more = []) \/
+                  (exists c frs', frs = c :: frs' /\ t = 1 /\ p = map S c /\ more = concat (map rec1 frs') ++ close_rec))).
+      { destruct frs as [|c frs'].
+        - exists 2, (@nil byte), (@nil byte). split; [reflexivity|]. left. auto.
+        - exists 1, (map S c), (concat (map rec1 frs') ++ close_rec). split.
+          + cbn [map concat]. rewrite <- app_assoc. apply rec1_shape.
+          + right. exists c, frs'. auto. }
+      destruct Hshape as (t & p & more & Hsh & Hcases).
+      destruct (fill_loop m true (FRead (S n)) t p more Hw (rxs s) ib s (S k) H1 eq_refl) as
+        (ib2 & s2 & fuel2 & Hpump & H12 & Hs2 & Hst2 & Hlen & Hcase).
+      { exists tl. rewrite <- Hsh, Hstream. now rewrite <- !app_assoc. }
+      { exact Hfuel. }
+      rewrite Hpump, pump_S.
+      destruct Hcase as [Hc|(Hc & Heof & Hrx2)].
+      * (* the record is complete *)
+        destruct (prefix_split (ib2 ++ bin s2) (t :: length p :: p) more) as (rest & Hib & Hrest).
+        { exists (rx_bytes (rxs s2) ++ tl). cbn [app]. rewrite <- Hsh, Hstream, <- Hst2. now rewrite <- !app_assoc. }
+        { cbn [length]. lia. }
+        assert (Hmore : more = (rest ++ [] ++ rx_bytes (rxs s2)) ++ tl).
+        { assert (E : (t :: length p :: p) ++ more = (t :: length p :: p) ++ (rest ++ [] ++ rx_bytes (rxs s2)) ++ tl).
+          { cbn [app]. rewrite <- Hsh, Hstream, <- Hst2. rewrite !app_assoc. rewrite Hib. cbn [app].
+            now rewrite <- !app_assoc. }
+          now apply app_inv_head in E. }
+        assert (Hparse : parse (ib2 ++ bin s2) = Some (t, p, rest)).
+        { rewrite Hib. cbn [app]. apply parse_complete. }
+        destruct Hcases as [(-> & -> & -> & ->)|(c & frs' & -> & -> & -> & ->)].
+        -- (* close_notify *)
+           rewrite (toy_read_close m ib2 (S n) (bin s2) (bin_eof s2) rest Hparse).
+           destruct (ok_noemit s2 (FRead (S n)) [] (length (bin s2)) H12) as (s' & Hev & H1' & Hs & Hb & Hr).
+           rewrite Hev. rewrite skipn_all in Hb.
+           assert (Htl0 : tl = [] /\ D = 0).
+           { destruct rest; [|discriminate]. destruct (rx_bytes (rxs s2)); [|discriminate].
+             destruct tl; [|discriminate]. cbn in Htl. auto. }
+           destruct Htl0 as [-> <-].
+           exists (alive m rest [] true), s', REndOfStream.
+           split; [reflexivity|]. split; [apply (same_trans _ _ _ Hs2 Hs)|].
+           right. left. repeat split; auto. exists rest. split; [reflexivity|].
+           constructor; auto; try discriminate. rewrite Hr. lia.
+        -- (* application data *)
+           pose proof (Forall_inv Hne) as Hc0. pose proof (Forall_inv_tail Hne) as Hne'. cbn beta in Hc0.
+           destruct c as [|y c]; [contradiction|].
+           cbn [map] in Hparse.
+           rewrite (toy_read_data m ib2 (S n) (bin s2) (bin_eof s2) y c rest Hparse).
+           destruct (ok_noemit s2 (FRead (S n)) (firstn (S n) (y :: c)) (length (bin s2)) H12) as (s' & Hev & H1' & Hs & Hb & Hr).
+           rewrite Hev. rewrite skipn_all in Hb. cbn [firstn].
+           exists (alive m rest (skipn (S n) (y :: c)) false), s', (RVal (y :: firstn n c)).
+           split; [reflexivity|]. split; [apply (same_trans _ _ _ Hs2 Hs)|].
+           left. exists (y :: firstn n c), frs', rest, (skipn (S n) (y :: c)).
+           split; [reflexivity|]. split; [discriminate|]. split; [reflexivity|]. split.
+           ++ constructor; auto; try discriminate.
+              ** rewrite Hr. lia.
+              ** intros _. exists tl. rewrite Hb, Hr. split; [exact Hmore|exact Htl].
+           ++ cbn [app concat map skipn]. f_equal. rewrite app_assoc. now rewrite firstn_skipn.
+      * (* the transport ended inside a record *)
+        assert (Hp : parse (ib2 ++ bin s2) = None).
+        { apply (parse_incomplete t p more); [|exact Hc].
+          exists (rx_bytes (rxs s2) ++ tl). rewrite <- Hsh, Hstream, <- Hst2. now rewrite <- !app_assoc. }
+        rewrite (toy_incomplete m true (FRead (S n)) ib2 (bin s2) (bin_eof s2) Hw Hp), Heof.
+        unfold on_ev. cbn [ek].
+        destruct Hs2 as [Hstd Hprod].
+        exists (kill (tob m true ib2)), (both_eof (apply_ev s2 (FRead (S n)) (mkev KEofStr [] 0 []))),
+               (if std s then RBroken else REndOfStream).
+        split.
+        { cbn [std apply_ev]. rewrite Hstd. destruct (std s); reflexivity. }
+        split; [split; cbn; [exact Hstd|rewrite app_nil_r; exact Hprod]|].
+        right. right. repeat split; auto.
+        assert (Hlen2 : length (concat (map rec1 frs) ++ close_rec) = length (ib2 ++ bin s2) + D).
+        { rewrite Hstream, <- Hst2, Hrx2. cbn [rx_bytes]. rewrite app_nil_r, app_length. lia. }
+        rewrite Hsh in Hlen2. cbn [length] in Hlen2. rewrite app_length in Hlen2. lia.
+  - (* buffered plaintext *)
+    assert (pc = false) as -> by (destruct pc; [destruct (Hclosed eq_refl) as (_ & E & _); discriminate|reflexivity]).
+    rewrite pump_S, toy_read_buffered.
+    destruct (ok_noemit s (FRead (S n)) (firstn (S n) (x :: pb)) 0 H1) as (s' & Hev & H1' & Hs & Hb & Hr).
+    rewrite Hev. cbn [firstn].
+    exists (alive m ib (skipn (S n) (x :: pb)) false), s', (RVal (x :: firstn n pb)).
+    split; [reflexivity|]. split; [exact Hs|].
+    left. exists (x :: firstn n pb), frs, ib, (skipn (S n) (x :: pb)).
+    split; [reflexivity|]. split; [discriminate|]. split; [reflexivity|]. split.
+    + constructor; auto; try discriminate.
+      * rewrite Hr. exact Hfuel.
+      * intros _. destruct (Hopen eq_refl) as (tl & Hstream & Htl). exists tl. rewrite Hb, Hr. cbn [skipn]. auto.
+    + change (x :: firstn n pb) with (firstn (S n) (x :: pb)). rewrite app_assoc. now rewrite firstn_skipn.
+Qed.
+
+Lemma send_step m fuel D frs ib pb pc s item :
+  J fuel D frs ib pb pc s ->
+  exists s', tstep fuel (alive m ib pb pc, s) (OSend item) = ((alive m ib pb pc, s'), RVal []) /\
+             J fuel D frs ib pb pc s' /\ std s' = std s /\ produced s' = produced s ++ records m item.
+Proof.
+  intros [H1 Hfuel Hne Hopen Hclosed]. destruct fuel as [|k]; [lia|].
+  unfold tstep. cbn [step]. rewrite pump_S, toy_write_alive.
+  destruct (ok_emit s (FWrite item) [length item] (records m item) H1) as (s' & Hev & H1' & Hstd & Hprod & Hb & Hr).
+  rewrite Hev. exists s'. split; [reflexivity|]. split; [|auto].
+  constructor; auto.
+  - rewrite Hr. exact Hfuel.
+  - intros E. rewrite Hb, Hr. auto.
+Qed.
+
+Definition sendrecv (a : op) : bool := match a with OReceive _ | OSend _ => true | _ => false end.
+
+Lemma dead_step fuel o s a : dead o = true -> sendrecv a = true -> 1 <= fuel ->
+  exists s' r, tstep fuel (o, s) a = ((o, s'), r) /\ (r = RSslOther \/ r = RValueError) /\ same s s'.
+Proof.
+  intros Hd Ha Hf. destruct fuel as [|k]; [lia|]. destruct a as [|n|item| |]; try discriminate.
+  - destruct n as [|n].
+    + exists s, RValueError. cbn. auto using same_refl.
+    + unfold tstep. cbn [step]. rewrite pump_S, (toy_dead o _ _ _ Hd). unfold on_ev. cbn [ek].
+      eexists _, RSslOther. split; [reflexivity|]. split; [auto|]. split; cbn; auto using app_nil_r.
+  - unfold tstep. cbn [step]. rewrite pump_S, (toy_dead o _ _ _ Hd). unfold on_ev. cbn [ek].
+    eexists _, RSslOther. split; [reflexivity|]. split; [auto|]. split; cbn; auto using app_nil_r.
+Qed.
+
+Lemma dead_run fuel ops : forallb sendrecv ops = true -> 1 <= fuel ->
+  forall o s, dead o = true ->
+  Forall (fun r => r = RSslOther \/ r = RValueError) (snd (trun fuel (o, s) ops)) /\
+  received ops (snd (trun fuel (o, s) ops)) = [] /\
+  accepted ops (snd (trun fuel (o, s) ops)) = [] /\
+  same s (snd (fst (trun fuel (o, s) ops))).
+Proof.
+  intros Hops Hf. induction ops as [|a ops IH]; intros o s Hd.
+  - cbn. auto using same_refl.
+  - cbn in Hops. apply andb_prop in Hops. destruct Hops as [Ha Hops].
+    destruct (dead_step fuel o s a Hd Ha Hf) as (s' & r & Hst & Hr & Hs).
+    unfold trun, run. cbn [run_ops]. fold (tstep fuel (o, s) a). rewrite Hst.
+    specialize (IH Hops o s' Hd). unfold trun, run in IH.
+    destruct (run_ops (step tobj toy_call fuel) (o, s') ops) as [w' rs]. cbn [fst snd] in *.
+    destruct IH as (I1 & I2 & I3 & I4).
+    split; [constructor; assumption|]. split; [|split; [|apply (same_trans _ _ _ Hs I4)]].
+    + destruct a; try discriminate; destruct Hr as [-> | ->]; exact I2.
+    + destruct a; try discriminate; destruct Hr as [-> | ->]; exact I3.
+Qed.
+
+Lemma trun_cons fuel w a ops :
+  trun fuel w (a :: ops) =
+  let '(w1, r) := tstep fuel w a in let '(w2, rs) := trun fuel w1 ops in (w2, r :: rs).
+Proof. reflexivity. Qed.
+
+Lemma run_J m fuel ops : forallb sendrecv ops = true ->
+  forall D frs ib pb pc s, J fuel D frs ib pb pc s ->
+  let w' := fst (trun fuel (alive m ib pb pc, s) ops) in
+  let rs := snd (trun fuel (alive m ib pb pc, s) ops) in
+  ~ In RStuck rs /\
+  (exists rest, pb ++ concat frs = received ops rs ++ rest) /\
+  (In REndOfStream rs -> std s = true \/ D = 0 -> D = 0 /\ received ops rs = pb ++ concat frs) /\
+  (In RBroken rs -> 0 < D /\ std s = true) /\
+  std (snd w') = std s /\
+  produced (snd w') = produced s ++ concat (map (records m) (accepted ops rs)).
+Proof.
+  intros Hops. induction ops as [|a ops IH]; intros D frs ib pb pc s HJ; cbn zeta.
+  - cbn. refine (conj _ (conj _ (conj _ (conj _ (conj eq_refl _))))); try tauto.
+    + exists (pb ++ concat frs). reflexivity.
+    + now rewrite app_nil_r.
+  - cbn in Hops. apply andb_prop in Hops. destruct Hops as [Ha Hops]. specialize (IH Hops).
+    assert (Hfuel1 : 1 <= fuel) by (pose proof (J_fuel _ _ _ _ _ _ _ HJ); lia).
+    rewrite trun_cons.
+    destruct a as [|n|item| |]; try discriminate.
+    + destruct n as [|n].
+      * (* receive(0): ValueError, nothing happens *)
+        change (tstep fuel (alive m ib pb pc, s) (OReceive 0)) with ((alive m ib pb pc, s), RValueError). cbv beta iota.
+        specialize (IH D frs ib pb pc s HJ). cbn zeta in IH.
+        destruct (trun fuel (alive m ib pb pc, s) ops) as [w' rs]. cbn [fst snd] in *. cbn [received accepted].
+        destruct IH as (I1 & I2 & I3 & I4 & I5 & I6).
+        refine (conj _ (conj I2 (conj _ (conj _ (conj I5 I6))))).
+        -- intros [H|H]; [discriminate|auto].
+        -- intros [H|H]; [discriminate|auto].
+        -- intros [H|H]; [discriminate|auto].
+      * destruct (recv_step m fuel D frs ib pb pc s n HJ) as (o' & s' & r & Hst & Hs & Hcase). rewrite Hst. cbv beta iota.
+        destruct Hs as [Hstd Hprod].
+        destruct Hcase as [(v & frs' & ib' & pb' & -> & Hv & -> & HJ' & Hpl)|[(-> & -> & -> & -> & ib' & -> & HJ')|(-> & HD & -> & Hdead)]].
+        -- (* data *)
+           specialize (IH D frs' ib' pb' false s' HJ'). cbn zeta in IH.
+           destruct (trun fuel (alive m ib' pb' false, s') ops) as [w' rs]. cbn [fst snd] in *. cbn [received accepted].
+           destruct IH as (I1 & (rest & I2) & I3 & I4 & I5 & I6).
+           refine (conj _ (conj _ (conj _ (conj _ (conj _ _))))).
+           ++ intros [H|H]; [discriminate|auto].
+           ++ exists rest. rewrite Hpl, I2. now rewrite <- app_assoc.
+           ++ intros [H|H]; [discriminate|]. intros Hc. rewrite Hstd in I3. destruct (I3 H Hc) as [HD0 Hrc].
+              split; [exact HD0|]. rewrite Hpl, Hrc. reflexivity.
+           ++ intros [H|H]; [discriminate|]. rewrite <- Hstd. auto.
+           ++ congruence.
+           ++ rewrite I6, Hprod. reflexivity.
+        -- (* clean end *)
+           specialize (IH 0 [] ib' [] true s' HJ'). cbn zeta in IH.
+           destruct (trun fuel (alive m ib' [] true, s') ops) as [w' rs]. cbn [fst snd] in *. cbn [received accepted].
+           destruct IH as (I1 & (rest & I2) & I3 & I4 & I5 & I6).
+           assert (Hrc : received ops rs = []).
+           { cbn in I2. symmetry in I2. apply app_eq_nil in I2. tauto. }
+           refine (conj _ (conj _ (conj _ (conj _ (conj _ _))))).
+           ++ intros [H|H]; [discriminate|auto].
+           ++ exists []. cbn. now rewrite Hrc.
+           ++ intros _ _. split; [reflexivity|]. cbn. exact Hrc.
+           ++ intros [H|H]; [discriminate|]. rewrite <- Hstd. auto.
+           ++ congruence.
+           ++ rewrite I6, Hprod. reflexivity.
+        -- (* truncated *)
+           destruct (dead_run fuel ops Hops Hfuel1 o' s' Hdead) as (D1 & D2 & D3 & D4).
+                      destruct (trun fuel (o', s') ops) as [w' rs]. cbn [fst snd] in *. cbn [received accepted].
+           destruct D4 as [D4 D5].
+           assert (Hno : forall x, In x rs -> x = RSslOther \/ x = RValueError).
+           { rewrite Forall_forall in D1. exact D1. }
+           refine (conj _ (conj _ (conj _ (conj _ (conj _ _))))).
+           ++ intros [H|H]; [destruct (std s); discriminate|]. destruct (Hno _ H); discriminate.
+           ++ exists (concat frs). cbn. destruct (std s); cbn; now rewrite D2.
+           ++ intros [H|H] Hc.
+              ** destruct (std s); [discriminate|]. destruct Hc; [discriminate|lia].
+              ** destruct (Hno _ H); discriminate.
+           ++ intros [H|H].
+              ** destruct (std s); [auto|discriminate].
+              ** destruct (Hno _ H); discriminate.
+           ++ congruence.
+           ++ destruct (std s); cbn; rewrite D3; cbn; rewrite app_nil_r; congruence.
+    + (* send *)
+      destruct (send_step m fuel D frs ib pb pc s item HJ) as (s' & Hst & HJ' & Hstd & Hprod). rewrite Hst. cbv beta iota.
+      specialize (IH D frs ib pb pc s' HJ'). cbn zeta in IH.
+      destruct (trun fuel (alive m ib pb pc, s') ops) as [w' rs]. cbn [fst snd] in *. cbn [received accepted].
+      destruct IH as (I1 & I2 & I3 & I4 & I5 & I6).
+      refine (conj _ (conj I2 (conj _ (conj _ (conj _ _))))).
+      * intros [H|H]; [discriminate|auto].
+      * intros [H|H]; [discriminate|]. rewrite <- Hstd. auto.
+      * intros [H|H]; [discriminate|]. rewrite <- Hstd. auto.
+      * congruence.
+      * rewrite I6, Hprod. cbn [map concat]. now rewrite <- app_assoc.
+Qed.
+
+(* ---- the handshake ---- *)
+Lemma rx_bytes_data l : rx_bytes (map RxData l) = concat l.
+Proof. induction l as [|d l IH]; cbn; [reflexivity|now rewrite IH]. Qed.
+
+Lemma all_data_map l : forallb is_data (map RxData l) = true.
+Proof. induction l as [|d l IH]; cbn; auto. Qed.
+
+Definition ep0 (sc : bool) (chunks : list (list byte)) : pst := init_pst sc (map RxData chunks) (Some RxEof) [].
+
+Lemma hs_first sc chunks :
+  exists s1, on_ev (apply_ev (ep0 sc chunks) FHandshake (mkev KWantRead [] 0 hello_rec)) (mkev KWantRead [] 0 hello_rec)
+             = (s1, Again) /\
+    S1 s1 /\ std s1 = sc /\ produced s1 = hello_rec /\ sendfail s1 = false /\
+    bin s1 ++ rx_bytes (rxs s1) = concat chunks /\ length (rxs s1) <= length chunks.
+Proof.
+  destruct chunks as [|d rest].
+  - eexists. split; [reflexivity|]. cbn. repeat split; auto; try discriminate.
+  - eexists. split; [reflexivity|]. cbn. repeat split; auto; try discriminate;
+      try apply all_data_map; try (now rewrite rx_bytes_data); try (change (length (map RxData rest) <= S (length rest)); rewrite map_length; lia).
+Qed.
+
+Lemma toy_hs_first m :
+  toy_call (init_tobj m) FHandshake [] false = Some (tob m false [], mkev KWantRead [] 0 hello_rec).
+Proof. reflexivity. Qed.
+
+Lemma toy_hs_done m ib b be rest : parse (ib ++ b) = Some (0, [], rest) ->
+  toy_call (tob m false ib) FHandshake b be = Some (alive m rest [] false, mkev KOk [] (length b) []).
+Proof. intros H. unfold toy_call, tob. cbn. now rewrite H. Qed.
+
+Lemma hs_step m sc chunks D frs fuel :
+  Forall (fun c => c <> []) frs ->
+  (exists tl, hello_rec ++ concat (map rec1 frs) ++ close_rec = concat chunks ++ tl /\ length tl = D) ->
+  length chunks + 3 <= fuel ->
+  exists o' s' r, tstep fuel (init_tobj m, ep0 sc chunks) OHandshake = ((o', s'), r) /\
+    std s' = sc /\ produced s' = hello_rec /\
+    ( (r = RVal [] /\ exists ib', o' = alive m ib' [] false /\ J fuel D frs ib' [] false s')
+   \/ (r = (if sc then RBroken else REndOfStream) /\ 0 < D /\ dead o' = true) ).
+Proof.
+  intros Hne (tl & Hw & Htl) Hfuel. destruct fuel as [|k]; [lia|].
+  unfold tstep. cbn [step]. rewrite pump_S.
+  change (bin (ep0 sc chunks)) with (@nil nat). change (bin_eof (ep0 sc chunks)) with false.
+  rewrite (toy_hs_first m).
+  destruct (hs_first sc chunks) as (s1 & Hev & H1 & Hstd & Hprod & _ & Hstream & Hlen). rewrite Hev.
+  assert (Hw0 : waits false FHandshake) by (left; auto).
+  destruct (fill_loop m false FHandshake 0 [] (concat (map rec1 frs) ++ close_rec) Hw0 (rxs s1) [] s1 k H1 eq_refl)
+    as (ib2 & s2 & fuel2 & Hpump & H12 & Hs2 & Hst2 & Hlen2 & Hcase).
+  { exists tl. cbn [app]. rewrite Hstream. exact Hw. }
+  { lia. }
+  rewrite Hpump, pump_S. destruct Hs2 as [Hstd2 Hprod2].
+  cbn [app] in Hst2. rewrite Hstream in Hst2.
+  destruct Hcase as [Hc|(Hc & Heof & Hrx2)].
+  - destruct (prefix_split (ib2 ++ bin s2) [0; 0] (concat (map rec1 frs) ++ close_rec)) as (rest & Hib & Hrest).
+    { exists (rx_bytes (rxs s2) ++ tl). change ([0; 0] ++ ?x) with (hello_rec ++ x).
+      rewrite Hw, <- Hst2. now rewrite <- !app_assoc. }
+    { exact Hc. }
+    assert (Hparse : parse (ib2 ++ bin s2) = Some (0, [], rest)).
+    { rewrite Hib. apply (parse_complete 0 [] rest). }
+    rewrite (toy_hs_done m ib2 (bin s2) (bin_eof s2) rest Hparse).
+    destruct (ok_noemit s2 FHandshake [] (length (bin s2)) H12) as (s' & Hev' & H1' & Hs & Hb & Hr).
+    rewrite Hev'. rewrite skipn_all in Hb. destruct Hs as [Hstd3 Hprod3].
+    exists (alive m rest [] false), s', (RVal []).
+    split; [reflexivity|]. split; [congruence|]. split; [congruence|].
+    left. split; [reflexivity|]. exists rest. split; [reflexivity|].
+    constructor; auto; try discriminate.
+    + rewrite Hr. lia.
+    + intros _. exists tl. split; [|exact Htl]. rewrite Hb, Hr.
+      assert (E : [0; 0] ++ concat (map rec1 frs) ++ close_rec = [0; 0] ++ (rest ++ [] ++ rx_bytes (rxs s2)) ++ tl).
+      { change ([0; 0] ++ ?x) with (hello_rec ++ x) at 1. rewrite Hw, <- Hst2.
+        rewrite !app_assoc. rewrite Hib. now rewrite <- !app_assoc. }
+      now apply app_inv_head in E.
+  - assert (Hp : parse (ib2 ++ bin s2) = None).
+    { apply (parse_incomplete 0 [] (concat (map rec1 frs) ++ close_rec)); [|exact Hc].
+      exists (rx_bytes (rxs s2) ++ tl). change (0 :: length (@nil nat) :: [] ++ ?x) with (hello_rec ++ x).
+      rewrite Hw, <- Hst2. now rewrite <- !app_assoc. }
+    rewrite (toy_incomplete m false FHandshake ib2 (bin s2) (bin_eof s2) Hw0 Hp), Heof.
+    unfold on_ev. cbn [ek].
+    exists (kill (tob m false ib2)), (both_eof (apply_ev s2 FHandshake (mkev KEofCls [] 0 []))),
+           (if sc then RBroken else REndOfStream).
+    split.
+    { cbn [std apply_ev]. rewrite Hstd2, Hstd. destruct sc; reflexivity. }
+    split; [cbn; congruence|]. split; [cbn; rewrite app_nil_r; congruence|].
+    right. repeat split; auto.
+    assert (E : length (hello_rec ++ concat (map rec1 frs) ++ close_rec) = length (ib2 ++ bin s2) + D).
+    { rewrite Hw, <- Hst2, Hrx2. cbn [rx_bytes]. rewrite app_nil_r, app_length. lia. }
+    rewrite app_length in E. cbn [length hello_rec] in E. cbn [length] in Hc. lia.
+Qed.
+
+(* ---- a transport whose send() never fails: nothing is ever dropped ---- *)
+Definition NF (s : pst) : Prop := txs s = [] /\ sendfail s = false.
+
+Lemma do_send_nf s : NF s -> NF (fst (do_send s)) /\ snd (do_send s) = TxOk.
+Proof. intros [H1 H2]. unfold do_send, NF. cbn. rewrite H1, H2. auto. Qed.
+
+Lemma flush_nf s : NF s -> NF (fst (flush s)) /\ snd (flush s) = TxOk.
+Proof. intros H. unfold flush. destruct (bout s); [auto|apply do_send_nf, H]. Qed.
+
+Lemma do_recv_nf s : NF s -> NF (fst (do_recv s)).
+Proof.
+  intros H. unfold do_recv, pop_rx. destruct (rxs s) as [|r rest].
+  - destruct (rx_tail s) as [r|]; [|exact H]. destruct r; cbn; try exact H. destruct (bin_eof s); exact H.
+  - destruct r; cbn; try exact H. destruct (bin_eof s); exact H.
+Qed.
+
+Lemma on_ev_nf s e : NF s -> NF (fst (on_ev s e)).
+Proof.
+  intros H. unfold on_ev. destruct (ek e); try exact H.
+  - destruct (flush_nf s H) as [H1 H2]. destruct (flush s) as [s2 t]. cbn in *. subst t. exact H1.
+  - destruct (flush_nf s H) as [H1 H2]. destruct (flush s) as [s2 t]. cbn in *. subst t. now apply do_recv_nf.
+  - destruct (do_send_nf s H) as [H1 H2]. destruct (do_send s) as [s2 t]. cbn in *. subst t. exact H1.
+Qed.
+
+Lemma pump_nf O ocall fuel : forall o f s, NF s -> NF (snd (fst (pump O ocall fuel o f s))).
+Proof.
+  induction fuel as [|k IH]; intros o f s H; cbn [pump]; [exact H|].
+  unfold iter. destruct (ocall o f (bin s) (bin_eof s)) as [[o1 e]|]; [|exact H].
+  pose proof (on_ev_nf (apply_ev s f e) e H) as H1.
+  destruct (on_ev (apply_ev s f e) e) as [s1 [r|]]; cbn in *; [exact H1|]. apply IH, H1.
+Qed.
+
+Lemma step_nf O ocall fuel w a : NF (snd w) -> NF (snd (fst (step O ocall fuel w a))).
+Proof.
+  destruct w as [o s]. cbn [snd]. intros H. destruct a as [|n|item| |]; cbn [step].
+  - pose proof (pump_nf O ocall fuel o FHandshake s H) as H1.
+    destruct (pump O ocall fuel o FHandshake s) as [[o1 s1] r]. destruct r; exact H1.
+  - destruct n as [|n]; [exact H|].
+    pose proof (pump_nf O ocall fuel o (FRead (S n)) s H) as H1.
+    destruct (pump O ocall fuel o (FRead (S n)) s) as [[o1 s1] r]. destruct r as [[|x v]| | | | | | | |]; exact H1.
+  - pose proof (pump_nf O ocall fuel o (FWrite item) s H) as H1.
+    destruct (pump O ocall fuel o (FWrite item) s) as [[o1 s1] r]. destruct r; exact H1.
+  - unfold do_unwrap. pose proof (pump_nf O ocall fuel o FUnwrap s H) as H1.
+    destruct (pump O ocall fuel o FUnwrap s) as [[o1 s1] r]. destruct r; exact H1.
+  - destruct (std s); [|exact H]. unfold do_unwrap. pose proof (pump_nf O ocall fuel o FUnwrap s H) as H1.
+    destruct (pump O ocall fuel o FUnwrap s) as [[o1 s1] r]. destruct r; exact H1.
+Qed.
+
+Lemma run_nf O ocall fuel ops : forall w, NF (snd w) -> NF (snd (fst (run O ocall fuel w ops))).
+Proof.
+  unfold run. intros w H. rewrite run_ops_final.
+  apply (final_inv (step O ocall fuel) (fun w => NF (snd w))); [|exact H].
+  intros w0 a. apply step_nf.
+Qed.
+
+(* ---- fragments of a sequence of items ---- *)
+Definition frs_of (m : nat) (items : list (list byte)) : list (list byte) := flat_map (frag m) items.
+
+Lemma frs_of_records m items : concat (map (records m) items) = concat (map rec1 (frs_of m items)).
+Proof.
+  unfold frs_of. induction items as [|i items IH]; [reflexivity|].
+  cbn [flat_map map concat]. rewrite map_app, concat_app. now rewrite IH.
+Qed.
+
+Lemma frs_of_concat m items : concat (frs_of m items) = concat items.
+Proof.
+  unfold frs_of. induction items as [|i items IH]; [reflexivity|].
+  cbn [flat_map concat]. rewrite concat_app, frag_concat. now rewrite IH.
+Qed.
+
+Lemma frs_of_nonempty m items : Forall (fun c => c <> []) (frs_of m items).
+Proof.
+  unfold frs_of. induction items as [|i items IH]; [constructor|].
+  cbn [flat_map]. apply Forall_app. split; [apply frag_nonempty|exact IH].
+Qed.
+
+(* ------------------------------------------------------------------------------------------------ *)
+(* Part 2b: end-to-end transparency                                                                  *)
+(* ------------------------------------------------------------------------------------------------ *)
+
+(* One endpoint: toy SSL object + pump + a transport that delivers, in ANY chunking, the first
+   |wire| - D bytes of what the peer put on the wire (handshake, the peer's items, close_notify) and then
+   ends.  The endpoint handshakes and then performs ANY sequence of send and receive operations. *)
+Theorem tls_endpoint_transparent m sc pitems chunks D ops fuel :
+  forallb sendrecv ops = true ->
+  (exists tl, wire m pitems true = concat chunks ++ tl /\ length tl = D) ->
+  length chunks + 3 <= fuel ->
+  let out := trun fuel (init_tobj m, ep0 sc chunks) (OHandshake :: ops) in
+  let rs := snd out in
+  let s' := snd (fst out) in
+  ~ In RStuck rs /\
+  (exists rest, concat pitems = received (OHandshake :: ops) rs ++ rest) /\
+  (In REndOfStream rs -> sc = true \/ D = 0 -> D = 0 /\ received (OHandshake :: ops) rs = concat pitems) /\
+  (In RBroken rs -> 0 < D /\ sc = true) /\
+  produced s' = hello_rec ++ concat (map (records m) (accepted (OHandshake :: ops) rs)) /\
+  sent_of (trace s') ++ bout s' = produced s'.
+Proof.
+  intros Hops (tl & Hw & Htl) Hfuel. cbn zeta.
+  assert (Hsent : forall out, out = trun fuel (init_tobj m, ep0 sc chunks) (OHandshake :: ops) ->
+            sent_of (trace (snd (fst out))) ++ bout (snd (fst out)) = produced (snd (fst out))).
+  { intros out ->.
+    pose proof (run_inv tobj toy_call fuel (OHandshake :: ops) (init_tobj m, ep0 sc chunks) (inv_init _ _ _ _)) as I.
+    pose proof (run_nf tobj toy_call fuel (OHandshake :: ops) (init_tobj m, ep0 sc chunks)) as N.
+    destruct N as [_ N]; [split; reflexivity|]. symmetry. apply (I_out _ I N). }
+  specialize (Hsent _ eq_refl). revert Hsent.
+  rewrite trun_cons.
+  destruct (hs_step m sc chunks D (frs_of m pitems) fuel (frs_of_nonempty m pitems)) as (o' & s1 & r & Hst & Hstd & Hprod & Hcase).
+  { exists tl. split; [|exact Htl]. rewrite <- Hw. unfold wire. now rewrite frs_of_records. }
+  { exact Hfuel. }
+  rewrite Hst. cbv beta iota.
+  assert (Hfuel1 : 1 <= fuel) by lia.
+  destruct Hcase as [(-> & ib' & -> & HJ)|(-> & HD & Hdead)].
+  - pose proof (run_J m fuel ops Hops D (frs_of m pitems) ib' [] false s1 HJ) as H. cbn zeta in H.
+    destruct (trun fuel (alive m ib' [] false, s1) ops) as [w' rs]. cbn [fst snd] in *. cbn [received accepted].
+    destruct H as (I1 & (rest & I2) & I3 & I4 & I5 & I6). rewrite frs_of_concat in *. cbn [app] in *.
+    intros Hsent.
+    refine (conj _ (conj _ (conj _ (conj _ (conj _ Hsent))))).
+    + intros [H|H]; [discriminate|auto].
+    + exists rest. exact I2.
+    + intros [H|H]; [discriminate|]. rewrite Hstd in I3. auto.
+    + intros [H|H]; [discriminate|]. rewrite Hstd in I4. auto.
+    + rewrite I6, Hprod. reflexivity.
+  - destruct (dead_run fuel ops Hops Hfuel1 o' s1 Hdead) as (D1 & D2 & D3 & D4).
+    destruct (trun fuel (o', s1) ops) as [w' rs]. cbn [fst snd] in *. cbn [received accepted].
+    destruct D4 as [D4 D5].
+    assert (Hno : forall x, In x rs -> x = RSslOther \/ x = RValueError).
+    { rewrite Forall_forall in D1. exact D1. }
+    intros Hsent.
+    refine (conj _ (conj _ (conj _ (conj _ (conj _ Hsent))))).
+    + intros [H|H]; [destruct sc; discriminate|]. destruct (Hno _ H); discriminate.
+    + exists (concat pitems). destruct sc; cbn; now rewrite D2.
+    + intros [H|H] Hc.
+      * destruct sc; [discriminate|]. destruct Hc; [discriminate|lia].
+      * destruct (Hno _ H); discriminate.
+    + intros [H|H].
+      * destruct sc; [auto|discriminate].
+      * destruct (Hno _ H); discriminate.
+    + rewrite D3, D5, Hprod. reflexivity.
+Qed.
+
+(* ---- what an endpoint puts on the wire, whatever it receives ---- *)
+Lemma on_ev_produced s e : produced (fst (on_ev s e)) = produced s.
+Proof.
+  unfold on_ev. destruct (ek e); try reflexivity.
+  - unfold flush. destruct (bout s); [reflexivity|]. cbn. destruct (is_txok _); reflexivity.
+  - assert (H : produced (fst (flush s)) = produced s) by (unfold flush; destruct (bout s); reflexivity).
+    destruct (flush s) as [s2 t]. cbn [fst] in H. destruct t; cbn [fst]; try exact H.
+    unfold do_recv, pop_rx. destruct (rxs s2) as [|r rest].
+    + destruct (rx_tail s2) as [r|]; [|exact H]. destruct r; cbn; try exact H. destruct (bin_eof s2); exact H.
+    + destruct r; cbn; try exact H. destruct (bin_eof s2); exact H.
+  - cbn. destruct (is_txok _); reflexivity.
+Qed.
+
+Section NoEmit.
+  Variable O : Type.
+  Variable ocall : O -> func -> list byte -> bool -> option (O * sslev).
+  Variable P : O -> Prop.
+  Variable f : func.
+  Hypothesis HP : forall o b be o1 e, P o -> ocall o f b be = Some (o1, e) -> eemit e = [] /\ P o1.
+
+  Lemma pump_noemit fuel : forall o s, P o ->
+    produced (snd (fst (pump O ocall fuel o f s))) = produced s /\ P (fst (fst (pump O ocall fuel o f s))).
+  Proof.
+    induction fuel as [|k IH]; intros o s Ho; cbn [pump]; [auto|].
+    unfold iter. destruct (ocall o f (bin s) (bin_eof s)) as [[o1 e]|] eqn:E; [|auto].
+    destruct (HP _ _ _ _ _ Ho E) as [He Ho1].
+    pose proof (on_ev_produced (apply_ev s f e) e) as Hp.
+    destruct (on_ev (apply_ev s f e) e) as [s1 [r|]]; cbn [fst snd] in *.
+    - split; [|exact Ho1]. rewrite Hp. cbn. rewrite He. apply app_nil_r.
+    - destruct (IH o1 s1 Ho1) as [H1 H2]. split; [|exact H2]. rewrite H1, Hp. cbn. rewrite He. apply app_nil_r.
+  Qed.
+End NoEmit.
+
+Ltac toy_cases H :=
+  unfold toy_call in H;
+  repeat match type of H with
+         | context [match ?x with _ => _ end] => destruct x
+         end.
+
+Lemma toy_mrec o f b be o1 e : toy_call o f b be = Some (o1, e) -> mrec o1 = mrec o.
+Proof. intros H. toy_cases H; injection H as <- _; reflexivity. Qed.
+
+Lemma toy_read_noemit m o n b be o1 e :
+  mrec o = m -> toy_call o (FRead n) b be = Some (o1, e) -> eemit e = [] /\ mrec o1 = m.
+Proof.
+  intros Hm H. split; [|rewrite (toy_mrec _ _ _ _ _ _ H); exact Hm].
+  toy_cases H; injection H as _ <-; reflexivity.
+Qed.
+
+Lemma toy_hs_noemit m o b be o1 e :
+  (mrec o = m /\ hs_sent o = true) -> toy_call o FHandshake b be = Some (o1, e) ->
+  eemit e = [] /\ (mrec o1 = m /\ hs_sent o1 = true).
+Proof.
+  intros [Hm Hs] H. split; [|split; [rewrite (toy_mrec _ _ _ _ _ _ H); exact Hm|]].
+  - unfold toy_call in H. rewrite Hs in H. toy_cases H; injection H as _ <-; reflexivity.
+  - unfold toy_call in H. rewrite Hs in H. toy_cases H; injection H as <- _; cbn; auto.
+Qed.
+
+Lemma toy_write_cases o item b be o1 e : toy_call o (FWrite item) b be = Some (o1, e) ->
+  (ek e = KOk /\ eemit e = records (mrec o) item) \/ (ek e = KOther /\ eemit e = []).
+Proof. intros H. toy_cases H; injection H as _ <-; auto. Qed.
+
+Lemma on_ev_ok_nf s e : NF s -> ek e = KOk -> snd (on_ev s e) = Done (RVal (eval e)).
+Proof.
+  intros H Hk. unfold on_ev. rewrite Hk. destruct (flush_nf s H) as [_ H2].
+  destruct (flush s) as [s2 t]. cbn in H2. subst t. reflexivity.
+Qed.
+
+Lemma send_any m fuel o s item : NF s -> mrec o = m -> 1 <= fuel ->
+  let out := tstep fuel (o, s) (OSend item) in
+  mrec (fst (fst out)) = m /\ NF (snd (fst out)) /\
+  produced (snd (fst out)) = produced s ++ (if is_val (snd out) then records m item else []).
+Proof.
+  intros Hn Hm Hf. cbn zeta. destruct fuel as [|k]; [lia|].
+  pose proof (step_nf tobj toy_call (S k) (o, s) (OSend item) Hn) as Hn'.
+  unfold tstep in *. cbn [step] in *. rewrite pump_S in *.
+  destruct (toy_call o (FWrite item) (bin s) (bin_eof s)) as [[o1 e]|] eqn:E.
+  - pose proof (toy_mrec _ _ _ _ _ _ E) as Hm1.
+    pose proof (on_ev_produced (apply_ev s (FWrite item) e) e) as Hp.
+    destruct (toy_write_cases _ _ _ _ _ _ E) as [[Hk He]|[Hk He]].
+    + pose proof (on_ev_ok_nf (apply_ev s (FWrite item) e) e Hn Hk) as Hd.
+      destruct (on_ev (apply_ev s (FWrite item) e) e) as [s1 nx]. cbn [fst snd] in *. subst nx.
+      cbn [fst snd is_val] in *. split; [congruence|]. split; [exact Hn'|]. rewrite Hp. cbn. now rewrite He, Hm.
+    + unfold on_ev in *. rewrite Hk in *. cbn [fst snd is_val] in *.
+      split; [congruence|]. split; [exact Hn'|]. cbn. now rewrite He.
+  - cbn [fst snd is_val] in *. rewrite app_nil_r. auto.
+Qed.
+
+Lemma recv_any m fuel o s n : NF s -> mrec o = m ->
+  let out := tstep fuel (o, s) (OReceive n) in
+  mrec (fst (fst out)) = m /\ NF (snd (fst out)) /\ produced (snd (fst out)) = produced s.
+Proof.
+  intros Hn Hm. cbn zeta.
+  pose proof (step_nf tobj toy_call fuel (o, s) (OReceive n) Hn) as Hn'.
+  unfold tstep in *. cbn [step] in *. destruct n as [|n]; [cbn; auto|].
+  destruct (pump_noemit tobj toy_call (fun o => mrec o = m) (FRead (S n))
+              (fun o b be o1 e => toy_read_noemit m o (S n) b be o1 e) fuel o s Hm) as [H1 H2].
+  destruct (pump tobj toy_call fuel o (FRead (S n)) s) as [[o1 s1] r]. cbn [fst snd] in *.
+  destruct r as [[|x v]| | | | | | | |]; cbn [fst snd] in *; auto.
+Qed.
+
+Lemma sender_run m fuel ops : forallb sendrecv ops = true -> 1 <= fuel ->
+  forall o s, NF s -> mrec o = m ->
+  produced (snd (fst (trun fuel (o, s) ops))) =
+  produced s ++ concat (map (records m) (accepted ops (snd (trun fuel (o, s) ops)))).
+Proof.
+  intros Hops Hf. induction ops as [|a ops IH]; intros o s Hn Hm.
+  - cbn. now rewrite app_nil_r.
+  - cbn in Hops. apply andb_prop in Hops. destruct Hops as [Ha Hops]. specialize (IH Hops).
+    rewrite trun_cons. destruct a as [|n|item| |]; try discriminate.
+    + pose proof (recv_any m fuel o s n Hn Hm) as H. cbn zeta in H.
+      destruct (tstep fuel (o, s) (OReceive n)) as [[o1 s1] r]. cbn [fst snd] in H. destruct H as (H1 & H2 & H3).
+      specialize (IH o1 s1 H2 H1). destruct (trun fuel (o1, s1) ops) as [w' rs]. cbn [fst snd] in *.
+      rewrite IH, H3. destruct r; reflexivity.
+    + pose proof (send_any m fuel o s item Hn Hm Hf) as H. cbn zeta in H.
+      destruct (tstep fuel (o, s) (OSend item)) as [[o1 s1] r]. cbn [fst snd] in H. destruct H as (H1 & H2 & H3).
+      specialize (IH o1 s1 H2 H1). destruct (trun fuel (o1, s1) ops) as [w' rs]. cbn [fst snd] in *.
+      rewrite IH, H3. destruct r; cbn [is_val accepted map concat]; rewrite <- ?app_assoc; cbn [app]; reflexivity.
+Qed.
+
+Lemma hs_any m fuel sc rx tail : 1 <= fuel ->
+  let out := tstep fuel (init_tobj m, init_pst sc rx tail []) OHandshake in
+  mrec (fst (fst out)) = m /\ NF (snd (fst out)) /\ produced (snd (fst out)) = hello_rec.
+Proof.
+  intros Hf. cbn zeta. destruct fuel as [|k]; [lia|].
+  assert (Hn : NF (init_pst sc rx tail [])) by (split; reflexivity).
+  pose proof (step_nf tobj toy_call (S k) (init_tobj m, init_pst sc rx tail []) OHandshake Hn) as Hn'.
+  unfold tstep in *. cbn [step] in *. rewrite pump_S in *.
+  change (bin (init_pst sc rx tail [])) with (@nil nat) in *.
+  change (bin_eof (init_pst sc rx tail [])) with false in *.
+  rewrite (toy_hs_first m) in *.
+  pose proof (on_ev_produced (apply_ev (init_pst sc rx tail []) FHandshake (mkev KWantRead [] 0 hello_rec))
+                (mkev KWantRead [] 0 hello_rec)) as Hp.
+  cbn [produced apply_ev init_pst app eemit] in Hp.
+  destruct (on_ev _ _) as [s1 [r|]]; cbn [fst snd] in *.
+  - destruct r; cbn [fst snd] in *; auto.
+  - destruct (pump_noemit tobj toy_call (fun o => mrec o = m /\ hs_sent o = true) FHandshake
+                (fun o b be o1 e => toy_hs_noemit m o b be o1 e) k (tob m false []) s1 (conj eq_refl eq_refl)) as [H1 [H2 _]].
+    destruct (pump tobj toy_call k (tob m false []) FHandshake s1) as [[o1 s2] r]. cbn [fst snd] in *.
+    destruct r; cbn [fst snd] in *; (split; [exact H2|]; split; [exact Hn'|]; congruence).
+Qed.
+
+(* the bytes an endpoint's SSL object produces are exactly handshake + the records of the accepted items, they
+   reach the transport in order, and nothing else does - whatever the peer or the transport delivers *)
+Theorem toy_sender_wire m sc rx tail ops fuel :
+  forallb sendrecv ops = true -> 1 <= fuel ->
+  let out := trun fuel (init_tobj m, init_pst sc rx tail []) (OHandshake :: ops) in
+  produced (snd (fst out)) = hello_rec ++ concat (map (records m) (accepted (OHandshake :: ops) (snd out))) /\
+  sent_of (trace (snd (fst out))) ++ bout (snd (fst out)) = produced (snd (fst out)).
+Proof.
+  intros Hops Hf. cbn zeta. split.
+  - rewrite trun_cons. pose proof (hs_any m fuel sc rx tail Hf) as H. cbn zeta in H.
+    destruct (tstep fuel (init_tobj m, init_pst sc rx tail []) OHandshake) as [[o1 s1] r]. cbn [fst snd] in H.
+    destruct H as (H1 & H2 & H3).
+    pose proof (sender_run m fuel ops Hops Hf o1 s1 H2 H1) as H.
+    destruct (trun fuel (o1, s1) ops) as [w' rs]. cbn [fst snd] in *. rewrite H, H3.
+    destruct r; reflexivity.
+  - pose proof (run_inv tobj toy_call fuel (OHandshake :: ops) (init_tobj m, init_pst sc rx tail []) (inv_init _ _ _ _)) as I.
+    pose proof (run_nf tobj toy_call fuel (OHandshake :: ops) (init_tobj m, init_pst sc rx tail [])) as N.
+    destruct N as [_ N]; [split; reflexivity|]. symmetry. apply (I_out _ I N).
+Qed.
+
+(* ---- both directions at once ---- *)
+Theorem tls_pair_transparent m scA scB opsA opsB chunksA chunksB fuel :
+  forallb sendrecv opsA = true -> forallb sendrecv opsB = true ->
+  length chunksA + 3 <= fuel -> length chunksB + 3 <= fuel ->
+  let outA := trun fuel (init_tobj m, ep0 scA chunksA) (OHandshake :: opsA) in
+  let outB := trun fuel (init_tobj m, ep0 scB chunksB) (OHandshake :: opsB) in
+  (* the transport hands A a prefix of what B sent, in any chunking, and vice versa *)
+  prefix (concat chunksA) (sent_of (trace (snd (fst outB)))) ->
+  prefix (concat chunksB) (sent_of (trace (snd (fst outA)))) ->
+  prefix (received (OHandshake :: opsA) (snd outA)) (concat (accepted (OHandshake :: opsB) (snd outB))) /\
+  prefix (received (OHandshake :: opsB) (snd outB)) (concat (accepted (OHandshake :: opsA) (snd outA))).
+Proof.
+  intros HA HB HfA HfB. cbn zeta. intros [tA HpA] [tB HpB].
+  assert (half : forall sc sc' ops ops' chunks chunks' t,
+            forallb sendrecv ops = true -> forallb sendrecv ops' = true ->
+            length chunks + 3 <= fuel -> 1 <= fuel ->
+            sent_of (trace (snd (fst (trun fuel (init_tobj m, ep0 sc' chunks') (OHandshake :: ops'))))) = concat chunks ++ t ->
+            prefix (received (OHandshake :: ops) (snd (trun fuel (init_tobj m, ep0 sc chunks) (OHandshake :: ops))))
+                   (concat (accepted (OHandshake :: ops') (snd (trun fuel (init_tobj m, ep0 sc' chunks') (OHandshake :: ops')))))).
+  { intros sc sc' ops ops' chunks chunks' t Ho Ho' Hf Hf1 Hsent.
+    destruct (toy_sender_wire m sc' (map RxData chunks') (Some RxEof) ops' fuel Ho' Hf1) as [Hprod Hwire].
+    fold (ep0 sc' chunks') in Hprod, Hwire.
+    set (out' := trun fuel (init_tobj m, ep0 sc' chunks') (OHandshake :: ops')) in *.
+    destruct (tls_endpoint_transparent m sc (accepted (OHandshake :: ops') (snd out')) chunks
+                (length (t ++ bout (snd (fst out')) ++ close_rec)) ops fuel Ho) as (_ & Hpre & _).
+    - exists (t ++ bout (snd (fst out')) ++ close_rec). split; [|reflexivity].
+      unfold wire. rewrite app_assoc, <- Hprod, <- Hwire, Hsent. now rewrite <- !app_assoc.
+    - exact Hf.
+    - exact Hpre. }
+  split.
+  - apply (half scA scB opsA opsB chunksA chunksB tA); auto; lia.
+  - apply (half scB scA opsB opsA chunksB chunksA tB); auto; lia.
+Qed.
+
+(* ---- draining: enough receive calls always reach the end of the stream, and report it correctly ---- *)
+Lemma in_repeat_recv n k : forallb sendrecv (repeat (OReceive n) k) = true.
+Proof. induction k; cbn; auto. Qed.
+
+Lemma drain_J m fuel n : forall k D frs ib pb pc s,
+  J fuel D frs ib pb pc s -> length (pb ++ concat frs) < k ->
+  let rs := snd (trun fuel (alive m ib pb pc, s) (repeat (OReceive (S n)) k)) in
+  In REndOfStream rs \/ In RBroken rs.
+Proof.
+  induction k as [|k IH]; intros D frs ib pb pc s HJ Hk; [lia|]. cbn zeta. cbn [repeat]. rewrite trun_cons.
+  destruct (recv_step m fuel D frs ib pb pc s n HJ) as (o' & s' & r & Hst & Hs & Hcase). rewrite Hst. cbv beta iota.
+  destruct Hcase as [(v & frs' & ib' & pb' & -> & Hv & -> & HJ' & Hpl)|[(-> & _)|(-> & _)]].
+  - specialize (IH D frs' ib' pb' false s' HJ'). cbn zeta in IH.
+    destruct (trun fuel (alive m ib' pb' false, s') (repeat (OReceive (S n)) k)) as [w' rs]. cbn [fst snd] in *.
+    assert (Hl : length (pb' ++ concat frs') < k).
+    { rewrite Hpl in Hk. rewrite app_length in Hk. destruct v; [contradiction|]. cbn in Hk. lia. }
+    destruct (IH Hl); [left|right]; now right.
+  - destruct (trun fuel _ _) as [w' rs]. left. now left.
+  - destruct (trun fuel _ _) as [w' rs]. cbn [snd]. destruct (std s); [right|left]; now left.
+Qed.
+
+Theorem tls_receive_all m sc pitems chunks D n k fuel :
+  (exists tl, wire m pitems true = concat chunks ++ tl /\ length tl = D) ->
+  length chunks + 3 <= fuel -> length (concat pitems) < k ->
+  let ops := OHandshake :: repeat (OReceive (S n)) k in
+  let rs := snd (trun fuel (init_tobj m, ep0 sc chunks) ops) in
+  (D = 0 -> received ops rs = concat pitems /\ In REndOfStream rs /\ ~ In RBroken rs) /\
+  (0 < D -> sc = true -> In RBroken rs /\ ~ In REndOfStream rs) /\
+  (0 < D -> sc = false -> In REndOfStream rs /\ ~ In RBroken rs).
+Proof.
+  intros Hw Hfuel Hk. cbn zeta.
+  destruct (tls_endpoint_transparent m sc pitems chunks D (repeat (OReceive (S n)) k) fuel
+              (in_repeat_recv (S n) k) Hw Hfuel) as (T1 & T2 & T3 & T4 & _).
+  cbn zeta in *.
+  assert (Hterm : In REndOfStream (snd (trun fuel (init_tobj m, ep0 sc chunks) (OHandshake :: repeat (OReceive (S n)) k))) \/
+                  In RBroken (snd (trun fuel (init_tobj m, ep0 sc chunks) (OHandshake :: repeat (OReceive (S n)) k)))).
+  { rewrite trun_cons. destruct Hw as (tl & Hw & Htl).
+    destruct (hs_step m sc chunks D (frs_of m pitems) fuel (frs_of_nonempty m pitems)) as (o' & s1 & r & Hst & Hstd & Hprod & Hcase).
+    { exists tl. split; [|exact Htl]. rewrite <- Hw. unfold wire. now rewrite frs_of_records. }
+    { exact Hfuel. }
+    rewrite Hst. cbv beta iota.
+    destruct Hcase as [(-> & ib' & -> & HJ)|(-> & HD & Hdead)].
+    - pose proof (drain_J m fuel n k D (frs_of m pitems) ib' [] false s1 HJ) as H. cbn zeta in H.
+      rewrite frs_of_concat in H. specialize (H Hk).
+      destruct (trun fuel (alive m ib' [] false, s1) (repeat (OReceive (S n)) k)) as [w' rs]. cbn [snd] in *.
+      destruct H; [left|right]; now right.
+    - destruct (trun fuel (o', s1) _) as [w' rs]. cbn [snd]. destruct sc; [right|left]; now left. }
+  set (rs := snd (trun fuel (init_tobj m, ep0 sc chunks) (OHandshake :: repeat (OReceive (S n)) k))) in *.
+  refine (conj _ (conj _ _)).
+  - intros HD. assert (Hnb : ~ In RBroken rs) by (intros H; apply T4 in H; lia).
+    destruct Hterm as [He|Hb]; [|contradiction]. destruct (T3 He (or_intror HD)) as [_ Hr]. auto.
+  - intros HD Hsc. assert (Hne : ~ In REndOfStream rs) by (intros H; destruct (T3 H (or_introl Hsc)); lia).
+    destruct Hterm as [He|Hb]; [contradiction|auto].
+  - intros HD Hsc. assert (Hnb : ~ In RBroken rs) by (intros H; apply T4 in H; destruct H; congruence).
+    destruct Hterm as [He|Hb]; [auto|contradiction].
+Qed.
+
+(* ------------------------------------------------------------------------------------------------ *)
+(* Non-vacuity: concrete runs that meet the hypotheses and exhibit each outcome                      *)
+(* ------------------------------------------------------------------------------------------------ *)
+
+(* scripted SSL object: the handshake wants to read twice (emitting a flight each time), the transport delivers
+   the peer's flight in two fragments; then a write that wants to write first *)
+Definition ex_script : list sslev :=
+  [mkev KWantRead [] 0 [1; 2; 3]; mkev KWantRead [] 2 [4]; mkev KOk [] 3 [5; 6];
+   mkev KWantWrite [] 0 [7]; mkev KOk [2] 0 [8; 9]].
+Definition ex_rx : list rxev := [RxData [20; 21]; RxData [22; 23; 24]].
+
+Example ex_conserved_and_flushed :
+  let s := snd (fst (srun 5 (ex_script, init_pst true ex_rx None []) [OHandshake; OSend [0; 0]])) in
+  trace s = [CSend [1; 2; 3] TxOk; CRecv 0 (RxData [20; 21]); CSend [4] TxOk; CRecv 0 (RxData [22; 23; 24]);
+             CSend [5; 6] TxOk; CSend [7] TxOk; CSend [8; 9] TxOk] /\
+  produced s = [1; 2; 3; 4; 5; 6; 7; 8; 9] /\ sent_of (trace s) = produced s /\ bout s = [] /\
+  fed s = [20; 21; 22; 23; 24] /\ rcvd_of (trace s) = fed s /\ consumed s = fed s /\
+  sendfail s = false /\ late s = false.
+Proof. vm_compute. repeat split. Qed.
+
+(* transport ends -> write_eof -> the SSL object reports an unexpected EOF *)
+Example ex_eof_mapping_std :
+  let out := srun 3 ([mkev KWantRead [] 0 []; mkev KEofStr [] 0 []], init_pst true [] (Some RxEof) []) [OReceive 10] in
+  snd out = [RBroken] /\ bin_eof (snd (fst out)) = true /\ trace (snd (fst out)) = [CRecv 0 RxEof].
+Proof. vm_compute. repeat split. Qed.
+
+Example ex_eof_mapping_nonstd :
+  let out := srun 3 ([mkev KWantRead [] 0 []; mkev KEofCls [] 0 []], init_pst false [] (Some RxEof) []) [OReceive 10] in
+  snd out = [REndOfStream] /\ bin_eof (snd (fst out)) = true.
+Proof. vm_compute. repeat split. Qed.
+
+(* close_notify: read() returns the empty bytes object *)
+Example ex_clean_close_std :
+  snd (srun 3 ([mkev KWantRead [] 0 []; mkev KOk [] 5 []], init_pst true [RxData [1; 2; 3; 4; 5]] None []) [OReceive 10])
+  = [REndOfStream].
+Proof. vm_compute. reflexivity. Qed.
+
+Example ex_receive_value :
+  snd (srun 3 ([mkev KOk [7; 8] 0 []], init_pst true [] None []) [OReceive 2]) = [RVal [7; 8]].
+Proof. vm_compute. reflexivity. Qed.
+
+(* toy record layer, records of at most 2 plaintext bytes *)
+Definition ex_items : list (list byte) := [[10; 11; 12]; []; [13]].
+Definition ex_wire : list byte := wire 1 ex_items true.
+Definition one_byte_chunks (l : list byte) : list (list byte) := map (fun b => [b]) l.
+Definition ex_ops : list op := [OSend [7; 8; 9]; OReceive 2; OReceive 5; OSend []; OReceive 5; OReceive 5; OReceive 5].
+
+Example ex_wire_value : ex_wire = [0; 0; 1; 2; 11; 12; 1; 1; 13; 1; 1; 14; 2; 0].
+Proof. vm_compute. reflexivity. Qed.
+
+(* complete delivery, 1-byte chunks, standard_compatible: hypotheses of tls_endpoint_transparent with D = 0 *)
+Example ex_transparent_complete :
+  (exists tl, wire 1 ex_items true = concat (one_byte_chunks ex_wire) ++ tl /\ length tl = 0) /\
+  length (one_byte_chunks ex_wire) + 3 <= 20 /\
+  let out := trun 20 (init_tobj 1, ep0 true (one_byte_chunks ex_wire)) (OHandshake :: ex_ops) in
+  snd out = [RVal []; RVal []; RVal [10; 11]; RVal [12]; RVal []; RVal [13]; REndOfStream; REndOfStream] /\
+  received (OHandshake :: ex_ops) (snd out) = concat ex_items /\
+  sent_of (trace (snd (fst out))) = wire 1 [[7; 8; 9]; []] false.
+Proof. split; [exists []; vm_compute; auto|]. vm_compute. repeat split. lia. Qed.
+
+(* the same stream cut in the middle of the second record (D = 7 bytes missing), both settings of the flag *)
+Example ex_transparent_truncated :
+  (exists tl, wire 1 ex_items true = concat [firstn 7 ex_wire] ++ tl /\ length tl = 7) /\
+  snd (trun 20 (init_tobj 1, ep0 true [firstn 7 ex_wire]) (OHandshake :: ex_ops))
+    = [RVal []; RVal []; RVal [10; 11]; RBroken; RSslOther; RSslOther; RSslOther; RSslOther] /\
+  snd (trun 20 (init_tobj 1, ep0 false [firstn 7 ex_wire]) (OHandshake :: ex_ops))
+    = [RVal []; RVal []; RVal [10; 11]; REndOfStream; RSslOther; RSslOther; RSslOther; RSslOther].
+Proof. split; [exists (skipn 7 ex_wire); vm_compute; auto|]. vm_compute. auto. Qed.
+
+(* cut during the handshake *)
+Example ex_truncated_handshake :
+  snd (trun 20 (init_tobj 1, ep0 true [[0]]) [OHandshake; OReceive 5]) = [RBroken; RSslOther] /\
+  snd (trun 20 (init_tobj 1, ep0 false [[0]]) [OHandshake; OReceive 5]) = [REndOfStream; RSslOther].
+Proof. vm_compute. auto. Qed.
+
+(* both directions at once: hypotheses of tls_pair_transparent *)
+Definition ex_opsA : list op := [OSend [1; 2; 3]; OReceive 2; OReceive 2].
+Definition ex_opsB : list op := [OReceive 1; OSend [7]; OReceive 5; OReceive 5].
+Definition ex_chunksA : list (list byte) := [[0; 0; 1]; [1; 8]].
+Definition ex_chunksB : list (list byte) := one_byte_chunks [0; 0; 1; 2; 2; 3; 1; 1; 4].
+
+Example ex_pair :
+  let outA := trun 20 (init_tobj 1, ep0 true ex_chunksA) (OHandshake :: ex_opsA) in
+  let outB := trun 20 (init_tobj 1, ep0 true ex_chunksB) (OHandshake :: ex_opsB) in
+  prefix (concat ex_chunksA) (sent_of (trace (snd (fst outB)))) /\
+  prefix (concat ex_chunksB) (sent_of (trace (snd (fst outA)))) /\
+  received (OHandshake :: ex_opsA) (snd outA) = [7] /\
+  received (OHandshake :: ex_opsB) (snd outB) = [1; 2; 3].
+Proof. cbn zeta. split; [exists []; vm_compute; reflexivity|]. split; [exists []; vm_compute; reflexivity|]. vm_compute. auto. Qed.
